@@ -1,4 +1,25 @@
-(* Proofs/Sound.v — soundness half of C01: generated models accept every sample they were inferred from. *)
+(* Proofs/Sound.v — soundness half of C01: generated models accept every sample they were inferred from.
+
+   Map of the file (numbers = the proof obligations of the task):
+   (1) ty_eqb_eq, lookup/update lemmas.
+   --  htg accepts mf uk: the relation ht of Sem/HasType.v with one switch: uk = false switches the rule for
+       TUnknown off (strict reading: Any only types the elements of empty containers, so it has no value of its
+       own to keep).  htg true = ht (htg_true_iff); htg uk is included in ht (htg_ht).  All pipeline lemmas are
+       proved for every uk.
+   (2) mk_union_sound, union1_sound, dunion_sound               (+ _ht corollaries for the official ht).
+   (3) py_eq_sound (two-sided py_eq of Model/Merge.v)            side conditions okt0 a, okt0 b.
+   (4) merge_field_sets_sound, merge_member_sound                side conditions okf (all sets), no_opt (later sets);
+       merge_opt_refuted shows no_opt is needed for the merge alone.
+   (5) resolve_sound, str_result_sound                           need an acyclicity certificate (rank);
+       resolve_cyclic_refuted shows why.
+   (6) optimize_sound_strict (strict semantics, side condition okT t); optimize_sound (official ht, side conditions
+       okT t, plain t); optimize_any_refuted / optimize_any_refuted_raw: false for ht without plain.
+   (7) detect_sound, convert_sound for the official ht (detect_sound_g, convert_sound_g for every uk).
+   (8) generate_sound for the official ht, arbitrary mf; only extra hypothesis: the rank certificate.
+   (d) registry stage, merge followed by optimize, no no_opt condition: merge_member_sound_h (merge alone, valid up
+       to Optional members hidden in required unions), optimize_hopt (such a union is Optional after optimize),
+       merge_optimize_sound (strict reading), merge_optimize_sound_ht (official ht, Any-free sets and models);
+       merge_optimize_any_refuted: false for the official ht when Any occurs. *)
 From Coq Require Import List Bool Arith NArith ZArith Lia.
 From J2M.Model Require Import Base Union Merge Optimize Detect.
 From J2M.Sem Require Import HasType NF.
@@ -93,6 +114,98 @@ Proof.
 Qed.
 
 (* ------------------------------------------------------------------ *)
+(* Generalised value semantics.  [htg u]: the relation of Sem/HasType.v when u = true; when u = false the
+   rule for TUnknown (Any) is switched off ("strict" semantics).  The strict reading is what makes the
+   removal of Any beside a concrete member in _optimize_union sound: the values the pipeline has to keep
+   are never accepted by Any alone (Any only types the elements of empty containers).                     *)
+(* ------------------------------------------------------------------ *)
+Section G.
+  Variable accepts : pseudo -> str -> bool.
+  Variable model_fields : N -> option fields.
+  Variable uk : bool.
+  Inductive htg : json -> ty -> Prop :=
+  | GInt z : htg (JInt z) TInt
+  | GIntF z : htg (JInt z) TFloat
+  | GFloat f : htg (JFloat f) TFloat
+  | GBool b : htg (JBool b) TBool
+  | GNull : htg JNull TNull
+  | GAny v : uk = true -> htg v TUnknown
+  | GStr s : htg (JStr s) TStr
+  | GLit s ls : In s ls -> htg (JStr s) (TLit false ls)
+  | GLitO s ls : htg (JStr s) (TLit true ls)
+  | GPs s p : accepts p s = true -> htg (JStr s) (TPseudo p)
+  | GOptN t : htg JNull (TOpt t)
+  | GOptS v t : htg v t -> htg v (TOpt t)
+  | GList l t : Forall (fun v => htg v t) l -> htg (JArr l) (TList t)
+  | GDict l t : Forall (fun kv => htg (snd kv) t) l -> htg (JObj l) (TDict t)
+  | GUnion v ts t : In t ts -> htg v t -> htg v (TUnion ts)
+  | GObj l fs :
+      Forall (fun kv => exists t, lookup (fst kv) fs = Some t /\ htg (snd kv) t) l ->
+      (forall k t, lookup k fs = Some t -> is_opt t = false -> In k (map fst l)) ->
+      htg (JObj l) (TObj fs)
+  | GPtr l i fs : model_fields i = Some fs -> htg (JObj l) (TObj fs) -> htg (JObj l) (TPtr i).
+  Definition obj_okg (fs : fields) (l : list (str * json)) : Prop :=
+    Forall (fun kv => exists t, lookup (fst kv) fs = Some t /\ htg (snd kv) t) l /\
+    (forall k t, lookup k fs = Some t -> is_opt t = false -> In k (map fst l)).
+  Definition widerg (a b : ty) : Prop := forall v, htg v a -> htg v b.
+End G.
+
+(* the generalised relation is included in the official one; with uk = true they coincide *)
+Lemma htg_ht accepts mf uk : forall v t, htg accepts mf uk v t -> ht accepts mf v t.
+Proof.
+  induction v using json_ind2; induction t using ty_ind2; intros Hv; inversion Hv; subst;
+    try discriminate;
+    try (now constructor);
+    try (apply HOptS; auto; fail);
+    try (rewrite Forall_forall in *; eapply HUnion; eauto; fail);
+    try (constructor; rewrite Forall_forall in *; eauto; fail).
+  - apply HObj; auto. rewrite Forall_forall in *. intros kv Hkv.
+    match goal with V : forall x, In x l -> exists t, _ |- _ => destruct (V kv Hkv) as [t [L Ht]] end.
+    exists t. split; auto.
+  - match goal with V : htg _ _ _ (JObj l) (TObj _) |- _ => inversion V; subst end.
+    eapply HPtr; eauto. apply HObj; auto. rewrite Forall_forall in *. intros kv Hkv.
+    match goal with V : forall x, In x l -> exists t, _ |- _ => destruct (V kv Hkv) as [t [L Ht]] end.
+    exists t. split; auto.
+Qed.
+
+Lemma ht_htg accepts mf : forall v t, ht accepts mf v t -> htg accepts mf true v t.
+Proof.
+  induction v using json_ind2; induction t using ty_ind2; intros Hv; inversion Hv; subst;
+    try (now constructor);
+    try (apply GOptS; auto; fail);
+    try (rewrite Forall_forall in *; eapply GUnion; eauto; fail);
+    try (constructor; rewrite Forall_forall in *; eauto; fail).
+  - apply GObj; auto. rewrite Forall_forall in *. intros kv Hkv.
+    match goal with V : forall x, In x l -> exists t, _ |- _ => destruct (V kv Hkv) as [t [L Ht]] end.
+    exists t. split; auto.
+  - match goal with V : ht _ _ (JObj l) (TObj _) |- _ => inversion V; subst end.
+    eapply GPtr; eauto. apply GObj; auto. rewrite Forall_forall in *. intros kv Hkv.
+    match goal with V : forall x, In x l -> exists t, _ |- _ => destruct (V kv Hkv) as [t [L Ht]] end.
+    exists t. split; auto.
+Qed.
+Lemma ht_none_any accepts mf : forall v t, ht accepts (fun _ => None) v t -> ht accepts mf v t.
+Proof.
+  induction v using json_ind2; induction t using ty_ind2; intros Hv; inversion Hv; subst;
+    try discriminate;
+    try (now constructor);
+    try (apply HOptS; auto; fail);
+    try (rewrite Forall_forall in *; eapply HUnion; eauto; fail);
+    try (constructor; rewrite Forall_forall in *; eauto; fail).
+  apply HObj; auto. rewrite Forall_forall in *. intros kv Hkv.
+  match goal with V : forall x, In x l -> exists t, _ |- _ => destruct (V kv Hkv) as [t [L Ht]] end.
+  exists t. split; auto.
+Qed.
+
+Lemma htg_true_iff accepts mf v t : htg accepts mf true v t <-> ht accepts mf v t.
+Proof. split; [apply htg_ht|apply ht_htg]. Qed.
+Lemma obj_okg_true_iff accepts mf fs l : obj_okg accepts mf true fs l <-> obj_ok accepts mf fs l.
+Proof.
+  unfold obj_okg, obj_ok. split; intros [H1 H2]; split; auto;
+    (eapply Forall_impl; [|exact H1]); intros kv [t [L Ht]]; exists t; split; auto;
+    now apply htg_true_iff.
+Qed.
+
+(* ------------------------------------------------------------------ *)
 (* (2) union construction                                              *)
 (* ------------------------------------------------------------------ *)
 Lemma str_cmp_eq : forall a b, str_cmp a b = Eq -> a = b.
@@ -121,9 +234,10 @@ Qed.
 Section Sound.
   Variable accepts : pseudo -> str -> bool.
   Variable mf : N -> option fields.
-  Notation ht := (ht accepts mf).
-  Notation obj_ok := (obj_ok accepts mf).
-  Notation wider := (wider accepts mf).
+  Variable uk : bool.
+  Notation ht := (htg accepts mf uk).
+  Notation obj_ok := (obj_okg accepts mf uk).
+  Notation wider := (widerg accepts mf uk).
 
   Lemma flat_sound v : forall t, ht v t -> Exists (ht v) (flat t).
   Proof.
@@ -178,9 +292,11 @@ Section Sound.
   Proof.
     destruct st as [[u ul] ls]. unfold ucov, union_step. intros H.
     destruct t; try (left; apply add_unique_new; exact H).
-    inversion H; subst. destruct ul; simpl.
-    - right. exists s. split; auto. right. apply fold_insert_in. auto.
-    - right. exists s. auto.
+    inversion H; subst.
+    - destruct ul; simpl.
+      + right. exists s. split; auto. right. apply fold_insert_in. auto.
+      + right. exists s. auto.
+    - destruct ul; simpl; right; exists s; auto.
   Qed.
   Lemma union_fold_keep v : forall l st, ucov v st -> ucov v (fold_left union_step l st).
   Proof. induction l as [|t r IH]; simpl; auto. intros st H. apply IH, union_step_keep, H. Qed.
@@ -243,7 +359,7 @@ Section Sound.
   Lemma wider_opt a : wider a (TOpt a).
   Proof. intros v H. now constructor. Qed.
   Lemma wider_opt_mono a b : wider a b -> wider (TOpt a) (TOpt b).
-  Proof. intros W v H. inversion H; subst; [constructor|]. apply HOptS. auto. Qed.
+  Proof. intros W v H. inversion H; subst; [constructor|]. apply GOptS. auto. Qed.
   Lemma wider_wrap_opt a : wider a (wrap_opt a).
   Proof. unfold wrap_opt. destruct (is_opt a); [intros v H; exact H|apply wider_opt]. Qed.
   Lemma is_opt_wrap_opt a : is_opt (wrap_opt a) = true.
@@ -257,15 +373,15 @@ End Sound.
    the keys of every raw dict are unique *)
 Fixpoint nodup_keys {A} (l : list (str * A)) : bool :=
   match l with [] => true | (k, _) :: r => negb (has_key k r) && nodup_keys r end.
-Fixpoint okt (t : ty) : bool :=
+Fixpoint okt0 (t : ty) : bool :=
   match t with
-  | TLit o ls => negb o || match ls with [] => true | _ => false end
-  | TOpt x | TList x | TDict x => okt x
-  | TUnion ts => (fix all l := match l with [] => true | x :: r => okt x && all r end) ts
-  | TObj fs => nodup_keys fs && (fix all (l : fields) := match l with [] => true | (_, x) :: r => okt x && all r end) fs
+  | TLit o ls => if o then match ls with [] => true | _ => false end else match ls with [] => false | _ => true end
+  | TOpt x | TList x | TDict x => okt0 x
+  | TUnion ts => (fix all l := match l with [] => true | x :: r => okt0 x && all r end) ts
+  | TObj fs => nodup_keys fs && (fix all (l : fields) := match l with [] => true | (_, x) :: r => okt0 x && all r end) fs
   | _ => true
   end.
-Definition okf (fs : fields) : bool := nodup_keys fs && forallb (fun kv => okt (snd kv)) fs.
+Definition okf0 (fs : fields) : bool := nodup_keys fs && forallb (fun kv => okt0 (snd kv)) fs.
 
 Lemma nodup_keys_NoDup {A} (l : list (str * A)) : nodup_keys l = true -> NoDup (map fst l).
 Proof.
@@ -279,16 +395,17 @@ Proof.
   induction l as [|[k x] r IH]; simpl; intros H; auto. inversion H; subst.
   rewrite IH by auto. unfold has_key. rewrite lookup_notin_None; auto.
 Qed.
-Lemma okt_union ts : okt (TUnion ts) = forallb okt ts.
+Lemma okt0_union ts : okt0 (TUnion ts) = forallb okt0 ts.
 Proof. simpl. induction ts as [|x r IH]; simpl; auto; try (now rewrite IH). Qed.
-Lemma okt_obj fs : okt (TObj fs) = okf fs.
-Proof. unfold okf. simpl. f_equal. induction fs as [|[k x] r IH]; simpl; auto; try (now rewrite IH). Qed.
+Lemma okt0_obj fs : okt0 (TObj fs) = okf0 fs.
+Proof. unfold okf0. simpl. f_equal. induction fs as [|[k x] r IH]; simpl; auto; try (now rewrite IH). Qed.
 
 Section PyEq.
   Variable accepts : pseudo -> str -> bool.
   Variable mf : N -> option fields.
+  Variable uk : bool.
   Variable peq : N -> N -> bool.
-  Notation ht := (ht accepts mf).
+  Notation ht := (htg accepts mf uk).
   Notation py_eq := (py_eq peq).
 
   Lemma py_eq_union xs ys : py_eq (TUnion xs) (TUnion ys) =
@@ -308,20 +425,29 @@ Section PyEq.
 
   Hypothesis Hpeq : forall i j, peq i j = true -> forall v, ht v (TPtr i) <-> ht v (TPtr j).
 
-  (* (3) side conditions forced by the proof (both decidable): okt a, okt b, i.e. an overflowed literal carries
-     the empty set (TLit true ls compares equal to TLit false ls but admits nothing) and raw-dict keys are unique *)
-  Theorem py_eq_sound : forall a b, okt a = true -> okt b = true -> py_eq a b = true ->
+  (* History: with the first (one-sided) reading of py_eq on unions — same length and every member of the left
+     side matched on the right — this statement was false, and so was generate_sound:
+       a = TUnion [A1; A2], b = TUnion [A1; TInt], A1 = TObj [a:int; b:int], A2 = TObj [b:int; a:int];
+       py_eq a b = true (A1->A1, A2->A1) but JInt 5 is accepted by b only.  With the samples
+       {"f":[{"a":1,"b":1},{"b":1,"a":1}]} and {"f":[{"a":1,"b":1},5]} the model kept f : List[A] and rejected
+       the second sample (checked by vm_compute before Model/Merge.v was repaired to the two-sided matching). *)
+  (* (3) side conditions forced by the proof (both decidable): okt0 a, okt0 b, i.e. an overflowed literal carries
+     the empty set and a plain literal a non-empty one (literals are compared by their sets only, so TLit true []
+     must never meet TLit false []), and raw-dict keys are unique *)
+  Theorem py_eq_sound : forall a b, okt0 a = true -> okt0 b = true -> py_eq a b = true ->
     forall v, ht v a <-> ht v b.
   Proof.
     induction a using ty_ind2; intros b Oa Ob E v;
       destruct b; try (simpl in E; discriminate); try reflexivity.
     - simpl in E. apply pseudo_eqb_true in E. now subst.
     - simpl in E. apply strs_eqb_true in E. subst. simpl in Oa, Ob.
-      split; intros Hv; inversion Hv; subst.
-      + destruct overflow; [|constructor; auto]. destruct ls0; [contradiction|discriminate].
-      + destruct o; [|constructor; auto]. destruct ls0; [contradiction|discriminate].
+      match type of Oa with (if ?o1 then _ else _) = true =>
+      match type of Ob with (if ?o2 then _ else _) = true =>
+        assert (EO : o1 = o2) by (clear - Oa Ob; destruct o1, o2; auto; destruct ls0; discriminate);
+        rewrite EO; reflexivity
+      end end.
     - simpl in *. specialize (IHa b Oa Ob E).
-      split; intros Hv; inversion Hv; subst; [constructor | apply HOptS; now apply IHa | constructor | apply HOptS; now apply IHa].
+      split; intros Hv; inversion Hv; subst; [constructor | apply GOptS; now apply IHa | constructor | apply GOptS; now apply IHa].
     - simpl in *. specialize (IHa b Oa Ob E).
       split; intros Hv; inversion Hv; subst; constructor; (eapply Forall_impl; [|eassumption]);
         intros x Hx; now apply IHa.
@@ -329,17 +455,17 @@ Section PyEq.
       split; intros Hv; inversion Hv; subst; constructor; (eapply Forall_impl; [|eassumption]);
         intros x Hx; now apply IHa.
     - rewrite py_eq_union in E. apply andb_prop in E as [E E2]. apply andb_prop in E as [_ E1].
-      rewrite okt_union in Oa, Ob.
+      rewrite okt0_union in Oa, Ob.
       rewrite forallb_forall in E1, E2, Oa, Ob. rewrite Forall_forall in H.
       split; intros Hv; inversion Hv; subst.
       + match goal with Hi : In ?t ts, Ht : ht v ?t |- _ => rename t into x; rename Hi into Hin; rename Ht into Hx end.
         specialize (E1 x Hin). apply existsb_exists in E1 as [y [Hy Exy]].
-        apply HUnion with (t := y); auto. destruct (H x Hin y (Oa x Hin) (Ob y Hy) Exy v) as [F B]. auto.
+        apply GUnion with (t := y); auto. destruct (H x Hin y (Oa x Hin) (Ob y Hy) Exy v) as [F B]. auto.
       + match goal with Hi : In ?t ts0, Ht : ht v ?t |- _ => rename t into y; rename Hi into Hin; rename Ht into Hy end.
         specialize (E2 y Hin). apply existsb_exists in E2 as [x [Hx Exy]].
-        apply HUnion with (t := x); auto. destruct (H x Hx y (Oa x Hx) (Ob y Hin) Exy v) as [F B]. auto.
+        apply GUnion with (t := x); auto. destruct (H x Hx y (Oa x Hx) (Ob y Hin) Exy v) as [F B]. auto.
     - rewrite py_eq_obj in E. apply andb_prop in E as [EL E]. apply Nat.eqb_eq in EL.
-      rewrite okt_obj in Oa, Ob. unfold okf in Oa, Ob.
+      rewrite okt0_obj in Oa, Ob. unfold okf0 in Oa, Ob.
       apply andb_prop in Oa as [NDa Oa]. apply andb_prop in Ob as [NDb Ob].
       rewrite forallb_forall in E, Oa, Ob. rewrite Forall_forall in H.
       apply nodup_keys_NoDup in NDa.
@@ -357,7 +483,7 @@ Section PyEq.
         exists x. repeat split; auto. apply In_lookup_nodup; auto. }
       split; intros Hv; inversion Hv; subst.
       + match goal with H1 : Forall _ l, H2 : forall k t, lookup k fs = Some t -> _ |- _ => rename H1 into V1; rename H2 into V2 end.
-        apply HObj.
+        apply GObj.
         * eapply Forall_impl; [|exact V1]. intros [k w] [t [Lk Hw]]. simpl in *.
           pose proof (lookup_In _ _ _ Lk) as Hin. destruct (M _ _ Hin) as [y [Ly Exy]].
           exists y. split; auto.
@@ -366,7 +492,7 @@ Section PyEq.
           apply (V2 k x); auto.
           destruct (is_opt x) eqn:Ox; auto. apply (py_eq_opt_l _ _ Exy) in Ox. congruence.
       + match goal with H1 : Forall _ l, H2 : forall k t, lookup k fs0 = Some t -> _ |- _ => rename H1 into V1; rename H2 into V2 end.
-        apply HObj.
+        apply GObj.
         * eapply Forall_impl; [|exact V1]. intros [k w] [t' [Lk Hw]]. simpl in *.
           destruct (M' _ _ Lk) as [x [Hin [Lx Exy]]].
           exists x. split; auto.
@@ -377,6 +503,39 @@ Section PyEq.
     - simpl in E. apply Hpeq; auto.
   Qed.
 End PyEq.
+
+
+(* the invariant carried through merge and optimisation: okt0, and moreover the fields of a raw dict that sits
+   inside a type are never Optional (Optional fields only exist in merged field sets, at the top of a field) *)
+Definition no_opt (fs : fields) : bool := forallb (fun kv => negb (is_opt (snd kv))) fs.
+Fixpoint okt (t : ty) : bool :=
+  match t with
+  | TLit o ls => if o then match ls with [] => true | _ => false end else match ls with [] => false | _ => true end
+  | TOpt x | TList x | TDict x => okt x
+  | TUnion ts => (fix all l := match l with [] => true | x :: r => okt x && all r end) ts
+  | TObj fs => nodup_keys fs && no_opt fs &&
+               (fix all (l : fields) := match l with [] => true | (_, x) :: r => okt x && all r end) fs
+  | _ => true
+  end.
+Definition okf (fs : fields) : bool := nodup_keys fs && forallb (fun kv => okt (snd kv)) fs.
+Lemma okt_union ts : okt (TUnion ts) = forallb okt ts.
+Proof. simpl. induction ts as [|x r IH]; simpl; auto; try (now rewrite IH). Qed.
+Lemma okt_obj fs : okt (TObj fs) = okf fs && no_opt fs.
+Proof.
+  unfold okf. simpl.
+  assert (E : (fix all (l : fields) := match l with [] => true | (_, x) :: r => okt x && all r end) fs
+              = forallb (fun kv => okt (snd kv)) fs).
+  { induction fs as [|[k x] r IH]; simpl; auto; try (now rewrite IH). }
+  rewrite E. destruct (nodup_keys fs), (no_opt fs), (forallb (fun kv => okt (snd kv)) fs); reflexivity.
+Qed.
+Lemma okt_okt0 : forall t, okt t = true -> okt0 t = true.
+Proof.
+  induction t using ty_ind2; intros O; auto.
+  - rewrite okt_union in O. rewrite okt0_union. rewrite forallb_forall in *. rewrite Forall_forall in H. auto.
+  - rewrite okt_obj in O. rewrite okt0_obj. unfold okf in O. unfold okf0.
+    apply andb_prop in O as [O _]. apply andb_prop in O as [O1 O2]. rewrite O1. simpl.
+    rewrite forallb_forall in *. rewrite Forall_forall in H. auto.
+Qed.
 
 (* ------------------------------------------------------------------ *)
 (* okt is preserved by union construction                               *)
@@ -433,3 +592,1798 @@ Lemma members_okt t : okt t = true -> okts (members t).
 Proof. destruct t; simpl; intros H; try (constructor; [exact H|constructor]). now apply okt_union_Forall. Qed.
 Lemma wrap_opt_okt t : okt (wrap_opt t) = okt t.
 Proof. unfold wrap_opt. destruct (is_opt t); reflexivity. Qed.
+
+(* hidden Optional: Optional on top, or a union with an Optional member *)
+Definition hopt (t : ty) : bool :=
+  is_opt t || match t with TUnion ts => existsb is_opt ts | _ => false end.
+Lemma hopt_is_opt t : is_opt t = true -> hopt t = true.
+Proof. unfold hopt. intros ->. reflexivity. Qed.
+Lemma hopt_member t : hopt t = true -> exists m, In m (members t) /\ is_opt m = true.
+Proof.
+  unfold hopt. intros H. apply orb_prop in H as [H|H].
+  - exists t. split; auto. destruct t; try discriminate. simpl. auto.
+  - destruct t; try discriminate. apply existsb_exists in H. exact H.
+Qed.
+Lemma flat_opt_member m : forall ts, In m ts -> is_opt m = true -> In m (flatten_union ts).
+Proof.
+  unfold flatten_union. simpl. induction ts as [|x r IH]; intros Hin Ho; [contradiction|].
+  apply in_or_app. destruct Hin as [->|Hin].
+  - left. destruct m; try discriminate. simpl. auto.
+  - right. auto.
+Qed.
+Lemma union_step_has m st t : In m (fst (fst st)) -> In m (fst (fst (union_step st t))).
+Proof.
+  destruct st as [[u ul] ls]. simpl. intros H.
+  assert (A : In m (add_unique u t)).
+  { unfold add_unique. destruct (existsb (ty_eqb t) u); auto. apply in_or_app. auto. }
+  destruct t; simpl; auto.
+  destruct (negb ul); simpl; auto. destruct overflow; simpl; auto.
+Qed.
+Lemma union_fold_has m : forall l st, In m (fst (fst st)) -> In m (fst (fst (fold_left union_step l st))).
+Proof. induction l as [|t r IH]; simpl; auto. intros st H. apply IH, union_step_has, H. Qed.
+Lemma union_fold_new m : forall l st, In m l -> is_lit m = false -> In m (fst (fst (fold_left union_step l st))).
+Proof.
+  induction l as [|t r IH]; simpl; intros st H NL; [contradiction|].
+  destruct H as [->|H]; [|auto].
+  apply union_fold_has. destruct st as [[u ul] ls].
+  destruct m; try discriminate; simpl; apply add_unique_has.
+Qed.
+Lemma mk_union_keeps m ts : In m (flatten_union ts) -> is_lit m = false -> In m (mk_union ts).
+Proof.
+  intros H NL. unfold mk_union.
+  pose proof (union_fold_new m (flatten_union ts) ([], true, []) H NL) as U.
+  destruct (fold_left union_step (flatten_union ts) ([], true, [])) as [[u ul] ls]. simpl in U.
+  assert (S : forall u', In m u' -> In m (add_unique u' TStr)).
+  { intros u' Hu. unfold add_unique. destruct (existsb _ u'); auto. apply in_or_app. auto. }
+  destruct ls as [|l0 lr].
+  - destruct ul; auto.
+  - destruct ul; auto. destruct (lit_overflow (l0 :: lr)); auto. apply in_or_app. auto.
+Qed.
+Lemma union1_hopt ts m : In m ts -> is_opt m = true -> hopt (union1 ts) = true.
+Proof.
+  intros Hin Ho. assert (K : In m (mk_union ts)).
+  { apply mk_union_keeps; [now apply flat_opt_member|]. destruct m; try discriminate. reflexivity. }
+  unfold union1. destruct (mk_union ts) as [|x [|y r]] eqn:E.
+  - inversion K.
+  - destruct K as [->|[]]. now apply hopt_is_opt.
+  - unfold hopt. cbn [is_opt orb]. apply (proj2 (existsb_exists is_opt (x :: y :: r))). exists m. auto.
+Qed.
+Lemma union1_hopt_l a b : hopt a = true -> hopt (union1 (members a ++ members b)) = true.
+Proof.
+  intros H. apply hopt_member in H as [m [Hin Ho]]. apply (union1_hopt _ m); auto. apply in_or_app. auto.
+Qed.
+Lemma union1_hopt_r a b : hopt b = true -> hopt (union1 (members a ++ members b)) = true.
+Proof.
+  intros H. apply hopt_member in H as [m [Hin Ho]]. apply (union1_hopt _ m); auto. apply in_or_app. auto.
+Qed.
+
+(* ------------------------------------------------------------------ *)
+(* (4) merge_field_sets                                                *)
+(* ------------------------------------------------------------------ *)
+Lemma okf_iff fs : okf fs = true <-> NoDup (map fst fs) /\ Forall (fun kv => okt (snd kv) = true) fs.
+Proof.
+  unfold okf. rewrite andb_true_iff, forallb_forall, Forall_forall. split; intros [A B]; split; auto.
+  - now apply nodup_keys_NoDup.
+  - now apply NoDup_nodup_keys.
+Qed.
+Lemma update_okf k t fs : okf fs = true -> okt t = true -> okf (update k t fs) = true.
+Proof.
+  rewrite !okf_iff. intros [ND O] Ot. split.
+  - rewrite map_fst_update. unfold has_key. destruct (lookup k fs) eqn:L; auto.
+    apply lookup_None_notin in L. clear O.
+    induction (map fst fs) as [|x r IH]; simpl.
+    + constructor; [intros []|constructor].
+    + inversion ND; subst. constructor.
+      * rewrite in_app_iff. simpl. intros [H|[H|[]]]; [tauto|]. subst. apply L. simpl. auto.
+      * apply IH; auto. intros H. apply L. simpl. auto.
+  - clear ND. induction fs as [|[k' t'] r IH]; simpl.
+    + constructor; auto.
+    + inversion O; subst. destruct (str_eqb k k'); constructor; auto.
+Qed.
+Lemma okf_lookup k t fs : okf fs = true -> lookup k fs = Some t -> okt t = true.
+Proof.
+  rewrite okf_iff. intros [_ O] L. apply lookup_In in L. rewrite Forall_forall in O. apply (O _ L).
+Qed.
+Lemma lookup_map_vals {A B} (h : str -> A -> B) k (l : list (str * A)) :
+  lookup k (map (fun kt => (fst kt, h (fst kt) (snd kt))) l) = option_map (h k) (lookup k l).
+Proof.
+  induction l as [|[k' t'] r IH]; simpl; auto.
+  destruct (str_eqb k k') eqn:E; auto. apply str_eqb_true in E. now subst.
+Qed.
+
+Section MergeSound.
+  Variable accepts : pseudo -> str -> bool.
+  Variable mf : N -> option fields.
+  Variable uk : bool.
+  Variable peq : N -> N -> bool.
+  Notation ht := (htg accepts mf uk).
+  Notation obj_ok := (obj_okg accepts mf uk).
+  Notation wider := (widerg accepts mf uk).
+  Hypothesis Hpeq : forall i j, peq i j = true -> forall v, ht v (TPtr i) <-> ht v (TPtr j).
+
+  Lemma py_eq_wider_r a b : okt a = true -> okt b = true -> py_eq peq a b = true -> wider b a.
+  Proof. intros Oa Ob E v H. apply (py_eq_sound accepts mf uk peq Hpeq a b (okt_okt0 _ Oa) (okt_okt0 _ Ob) E v). exact H. Qed.
+  Lemma py_eq_wider_l a b : okt a = true -> okt b = true -> py_eq peq a b = true -> wider a b.
+  Proof. intros Oa Ob E v H. apply (py_eq_sound accepts mf uk peq Hpeq a b (okt_okt0 _ Oa) (okt_okt0 _ Ob) E v). exact H. Qed.
+
+  Lemma obj_ok_widen fs l k t t' :
+    lookup k fs = Some t -> wider t t' -> (is_opt t' = false -> is_opt t = false) ->
+    obj_ok fs l -> obj_ok (update k t' fs) l.
+  Proof.
+    intros Hk Hw Ho [H1 H2]. split.
+    - eapply Forall_impl; [|exact H1]. intros [k0 v0] [t0 [L0 Hv]]. simpl in *.
+      destruct (list_eq_dec N.eq_dec k0 k) as [->|Nk].
+      + exists t'. rewrite lookup_update_same. split; auto. apply Hw. congruence.
+      + exists t0. rewrite lookup_update_other; auto.
+    - intros k0 t0 L0 O0. destruct (list_eq_dec N.eq_dec k0 k) as [->|Nk].
+      + rewrite lookup_update_same in L0. inversion L0; subst. eapply H2; eauto.
+      + rewrite lookup_update_other in L0; eauto.
+  Qed.
+  Lemma obj_ok_add_opt fs l k t :
+    lookup k fs = None -> is_opt t = true -> obj_ok fs l -> obj_ok (update k t fs) l.
+  Proof.
+    intros Hk Ho [H1 H2]. split.
+    - eapply Forall_impl; [|exact H1]. intros [k0 v0] [t0 [L0 Hv]]. simpl in *.
+      exists t0. split; auto. rewrite lookup_update_other; auto. intros ->. congruence.
+    - intros k0 t0 L0 O0. destruct (list_eq_dec N.eq_dec k0 k) as [->|Nk].
+      + rewrite lookup_update_same in L0. inversion L0; subst. congruence.
+      + rewrite lookup_update_other in L0; eauto.
+  Qed.
+
+  (* a later model's field never touches another key *)
+  Lemma merge_field_other first acc name field k :
+    k <> name -> lookup k (merge_field peq first acc (name, field)) = lookup k acc.
+  Proof.
+    intros N. unfold merge_field. destruct (lookup name acc) as [fo|].
+    - destruct fo; repeat match goal with |- context [if ?c then _ else _] => destruct c end;
+        try reflexivity; try (now apply lookup_update_other);
+        destruct field; repeat match goal with |- context [if ?c then _ else _] => destruct c end;
+        try reflexivity; now apply lookup_update_other.
+    - now apply lookup_update_other.
+  Qed.
+
+  Lemma merge_field_okf first acc name field :
+    okf acc = true -> okt field = true -> okf (merge_field peq first acc (name, field)) = true.
+  Proof.
+    intros Oa Of. unfold merge_field. destruct (lookup name acc) as [fo|] eqn:L.
+    - pose proof (okf_lookup _ _ _ Oa L) as Ofo.
+      assert (U : forall x, okt x = true -> okt (union1 (members field ++ members x)) = true).
+      { intros x Ox. apply union1_okt, Forall_app. split; now apply members_okt. }
+      destruct fo; repeat match goal with |- context [if ?c then _ else _] => destruct c end;
+        try assumption; try (apply update_okf; auto; apply U; exact Ofo);
+        try (destruct field; repeat match goal with |- context [if ?c then _ else _] => destruct c end;
+             apply update_okf; auto; apply U; exact Ofo).
+    - apply update_okf; auto. destruct (first || is_opt field); auto.
+  Qed.
+
+  (* one field of a later model (first = false): earlier objects stay valid *)
+  Lemma merge_field_mono acc l name field :
+    okf acc = true -> okt field = true -> obj_ok acc l -> obj_ok (merge_field peq false acc (name, field)) l.
+  Proof.
+    intros Oa Of H. unfold merge_field.
+    destruct (lookup name acc) as [fo|] eqn:L.
+    - pose proof (okf_lookup _ _ _ Oa L) as Ofo.
+      assert (NonOpt : is_opt fo = false ->
+        obj_ok (if py_eq peq fo field then acc
+                else match field with
+                     | TOpt f' => if py_eq peq fo f' then update name field acc
+                                  else update name (union1 (members field ++ members fo)) acc
+                     | _ => update name (union1 (members field ++ members fo)) acc
+                     end) l).
+      { intros NO. destruct (py_eq peq fo field); [exact H|].
+        assert (U : obj_ok (update name (union1 (members field ++ members fo)) acc) l).
+        { apply (obj_ok_widen acc l name fo _ L); [apply union1_wider_r | intros _; exact NO | exact H]. }
+        destruct field; auto.
+        destruct (py_eq peq fo field) eqn:E; auto.
+        apply (obj_ok_widen acc l name fo _ L); [| intros; discriminate | exact H].
+        intros v Hv. apply GOptS. eapply py_eq_wider_l; eauto. }
+      destruct fo as [| | | | | |p|o ls|fo'|x|x|ts|fs|i]; try (apply NonOpt; reflexivity).
+      destruct (py_eq peq (TOpt fo') field || py_eq peq fo' field); [exact H|].
+      apply (obj_ok_widen acc l name (TOpt fo') _ L); [apply wider_opt_mono, union1_wider_r | intros; discriminate | exact H].
+    - simpl. apply obj_ok_add_opt; auto. destruct (is_opt field) eqn:O; auto.
+  Qed.
+
+  (* what the merged set offers for a field of the model being merged *)
+  Definition covers (acc : fields) (k : str) (t : ty) : Prop :=
+    exists t', lookup k acc = Some t' /\ wider t t' /\ (is_opt t' = false -> is_opt t = false).
+
+  Lemma merge_field_covers acc name field :
+    okf acc = true -> okt field = true -> is_opt field = false ->
+    covers (merge_field peq false acc (name, field)) name field.
+  Proof.
+    intros Oa Of NOf. unfold merge_field, covers.
+    destruct (lookup name acc) as [fo|] eqn:L.
+    - pose proof (okf_lookup _ _ _ Oa L) as Ofo.
+      assert (NonOpt : is_opt fo = false ->
+        exists t', lookup name (if py_eq peq fo field then acc
+                else match field with
+                     | TOpt f' => if py_eq peq fo f' then update name field acc
+                                  else update name (union1 (members field ++ members fo)) acc
+                     | _ => update name (union1 (members field ++ members fo)) acc
+                     end) = Some t' /\ wider field t' /\ (is_opt t' = false -> is_opt field = false)).
+      { intros NO. destruct (py_eq peq fo field) eqn:E.
+        - exists fo. split; [exact L|split; [|intros _; exact NOf]]. eapply py_eq_wider_r; eauto.
+        - destruct field; try discriminate;
+            (eexists; split; [apply lookup_update_same|split; [apply union1_wider_l|auto]]). }
+      destruct fo as [| | | | | |p|o ls|fo'|x|x|ts|fs|i]; try (apply NonOpt; reflexivity).
+      destruct (py_eq peq (TOpt fo') field) eqn:E1; simpl.
+      + exists (TOpt fo'). split; [exact L|split; [|discriminate]]. eapply py_eq_wider_r; eauto.
+      + destruct (py_eq peq fo' field) eqn:E2.
+        * exists (TOpt fo'). split; [exact L|split; [|discriminate]].
+          intros v Hv. apply GOptS. exact (py_eq_wider_r fo' field Ofo Of E2 v Hv).
+        * eexists; split; [apply lookup_update_same|split; [|discriminate]].
+          intros v Hv. apply GOptS. now apply union1_wider_l.
+    - simpl. rewrite NOf. eexists; split; [apply lookup_update_same|split; [apply wider_opt|discriminate]].
+  Qed.
+
+
+  Lemma fold_merge_false : forall model acc,
+    okf model = true -> no_opt model = true -> okf acc = true ->
+    let acc' := fold_left (merge_field peq false) model acc in
+    okf acc' = true /\
+    (forall l, obj_ok acc l -> obj_ok acc' l) /\
+    (forall k t, In (k, t) model -> covers acc' k t) /\
+    (forall k, ~ In k (map fst model) -> lookup k acc' = lookup k acc).
+  Proof.
+    induction model as [|[name field] r IH]; intros acc Om NOm Oa; cbv zeta; cbn [fold_left].
+    - split; [exact Oa|split; [auto|split; [intros k t []|auto]]].
+    - apply okf_iff in Om as [ND Om]. simpl in ND. inversion ND as [|? ? Nin NDr]; subst.
+      inversion Om as [|? ? Ofield Or]; subst. simpl in Ofield.
+      simpl in NOm. apply andb_prop in NOm as [NOf NOr]. apply negb_true_iff in NOf.
+      assert (Or' : okf r = true) by (apply okf_iff; auto).
+      pose proof (merge_field_okf false acc name field Oa Ofield) as Oa1.
+      destruct (IH _ Or' NOr Oa1) as [I1 [I2 [I3 I4]]].
+      split; [exact I1|]. split; [|split].
+      + intros l Hl. apply I2. apply merge_field_mono; auto.
+      + intros k t [Hin|Hin]; [|now apply I3].
+        inversion Hin; subst. unfold covers. rewrite (I4 k Nin).
+        apply merge_field_covers; auto.
+      + intros k Hk. rewrite I4 by (intros X; apply Hk; simpl; auto). apply merge_field_other. intros ->. apply Hk; simpl; auto.
+  Qed.
+
+  Definition post_pass (acc model acc' : fields) : fields :=
+    map (fun kt => if has_key (fst kt) acc && negb (has_key (fst kt) model)
+                   then (fst kt, wrap_opt (snd kt)) else kt) acc'.
+  Lemma post_pass_lookup acc model acc' k :
+    lookup k (post_pass acc model acc') =
+    option_map (fun t => if has_key k acc && negb (has_key k model) then wrap_opt t else t) (lookup k acc').
+  Proof.
+    unfold post_pass.
+    rewrite <- (lookup_map_vals (fun k t => if has_key k acc && negb (has_key k model) then wrap_opt t else t)).
+    f_equal. apply map_ext. intros [k' t']. simpl.
+    destruct (has_key k' acc && negb (has_key k' model)); reflexivity.
+  Qed.
+  Lemma post_pass_okf acc model acc' : okf acc' = true -> okf (post_pass acc model acc') = true.
+  Proof.
+    rewrite !okf_iff. intros [ND O]. unfold post_pass. split.
+    - rewrite map_map. erewrite map_ext; [exact ND|]. intros [k t]. simpl.
+      destruct (has_key k acc && negb (has_key k model)); reflexivity.
+    - apply Forall_map. eapply Forall_impl; [|exact O]. intros [k t]. simpl.
+      destruct (has_key k acc && negb (has_key k model)); simpl; auto. now rewrite wrap_opt_okt.
+  Qed.
+  Lemma post_pass_mono acc model acc' l : obj_ok acc' l -> obj_ok (post_pass acc model acc') l.
+  Proof.
+    intros [H1 H2]. split.
+    - eapply Forall_impl; [|exact H1]. intros [k v] [t [L Hv]]. simpl in *.
+      rewrite post_pass_lookup, L. simpl. eexists; split; [reflexivity|].
+      destruct (has_key k acc && negb (has_key k model)); auto. now apply wider_wrap_opt.
+    - intros k t L NO. rewrite post_pass_lookup in L.
+      destruct (lookup k acc') as [t0|] eqn:L0; [|discriminate]. simpl in L. inversion L; subst.
+      destruct (has_key k acc && negb (has_key k model)).
+      + rewrite is_opt_wrap_opt in NO. discriminate.
+      + eauto.
+  Qed.
+
+  (* one later model: earlier objects stay valid, the new model's objects become valid *)
+  Lemma merge_step_false acc model :
+    okf model = true -> no_opt model = true -> okf acc = true ->
+    let acc2 := snd (merge_step peq (false, acc) model) in
+    fst (merge_step peq (false, acc) model) = false /\
+    okf acc2 = true /\
+    (forall l, obj_ok acc l -> obj_ok acc2 l) /\
+    (forall l, obj_ok model l -> obj_ok acc2 l).
+  Proof.
+    intros Om NOm Oa. simpl.
+    destruct (fold_merge_false model acc Om NOm Oa) as [I1 [I2 [I3 I4]]].
+    fold (post_pass acc model (fold_left (merge_field peq false) model acc)).
+    set (acc' := fold_left (merge_field peq false) model acc) in *.
+    split; [reflexivity|]. split; [now apply post_pass_okf|]. split.
+    - intros l Hl. apply post_pass_mono. now apply I2.
+    - intros l [H1 H2]. split.
+      + eapply Forall_impl; [|exact H1]. intros [k v] [t [L Hv]]. simpl in *.
+        destruct (I3 k t (lookup_In _ _ _ L)) as [t' [L' [W _]]].
+        rewrite post_pass_lookup, L'. simpl. unfold has_key at 2. rewrite L. simpl.
+        rewrite andb_false_r. eexists; split; [reflexivity|]. now apply W.
+      + intros k t L NO. rewrite post_pass_lookup in L.
+        destruct (lookup k acc') as [t0|] eqn:L0; [|discriminate]. simpl in L. inversion L; subst. clear L.
+        destruct (has_key k acc && negb (has_key k model)) eqn:C.
+        * rewrite is_opt_wrap_opt in NO. discriminate.
+        * unfold has_key in C. destruct (lookup k model) as [tm|] eqn:Lm.
+          -- destruct (I3 k tm (lookup_In _ _ _ Lm)) as [t' [L' [_ O']]].
+             assert (t' = t0) by congruence. subst t'. apply (H2 k tm Lm). auto.
+          -- exfalso. rewrite (I4 k (lookup_None_notin _ _ Lm)) in L0. rewrite L0 in C. discriminate.
+  Qed.
+
+  Lemma merge_steps_false : forall sets objs acc,
+    Forall2 (fun fs l => obj_ok fs l) sets objs ->
+    Forall (fun fs => okf fs = true /\ no_opt fs = true) sets -> okf acc = true ->
+    let final := snd (fold_left (merge_step peq) sets (false, acc)) in
+    (forall l, obj_ok acc l -> obj_ok final l) /\ Forall (obj_ok final) objs /\ okf final = true.
+  Proof.
+    intros sets objs acc F. revert acc.
+    induction F as [|fs l sets objs Hfl F IH]; intros acc Hs Oa; cbv zeta; cbn [fold_left].
+    - cbn [snd]. split; auto.
+    - inversion Hs as [|? ? [Ofs NOfs] Hs']; subst.
+      pose proof (merge_step_false acc fs Ofs NOfs Oa) as MS. cbv zeta in MS.
+      destruct (merge_step peq (false, acc) fs) as [b acc2]. cbn [fst snd] in MS.
+      destruct MS as [E1 [O2 [M1 M2]]]. subst b.
+      destruct (IH acc2 Hs' O2) as [J1 [J2 J3]].
+      split; [intros l0 H0; apply J1, M1, H0|]. split; [constructor; auto|exact J3].
+  Qed.
+
+  (* the first model is copied *)
+  Lemma fold_merge_true : forall model acc,
+    NoDup (map fst model) -> (forall k, In k (map fst model) -> lookup k acc = None) ->
+    fold_left (merge_field peq true) model acc = acc ++ model.
+  Proof.
+    induction model as [|[name field] r IH]; intros acc ND Hd; simpl.
+    - now rewrite app_nil_r.
+    - inversion ND as [|? ? Nin NDr]; subst. rewrite (Hd name) by (simpl; auto). simpl.
+      assert (U : update name field acc = acc ++ [(name, field)]).
+      { assert (L : lookup name acc = None) by (apply Hd; simpl; auto). clear -L.
+        induction acc as [|[k t] a IHa]; simpl in *; auto.
+        destruct (str_eqb name k); [discriminate|]. now rewrite IHa. }
+      rewrite U, IH; auto.
+      + now rewrite <- app_assoc.
+      + intros k Hk. apply lookup_notin_None. rewrite map_app, in_app_iff. simpl.
+        intros [H|[H|[]]].
+        * apply (lookup_None_notin k acc); auto. apply Hd. simpl. auto.
+        * subst. tauto.
+  Qed.
+
+  Lemma merge_step_true fs : NoDup (map fst fs) -> merge_step peq (true, []) fs = (false, fs).
+  Proof.
+    intros ND. unfold merge_step. rewrite (fold_merge_true fs [] ND) by reflexivity.
+    rewrite app_nil_l. f_equal. rewrite <- (map_id fs) at 2. apply map_ext. intros kt. reflexivity.
+  Qed.
+
+  (* (4).  Side conditions forced by the proof, all decidable: every field set has unique keys and okt field
+     types (okf); the sets after the first carry no Optional field (no_opt) — see merge_opt_refuted below. *)
+  Theorem merge_field_sets_sound sets objs :
+    Forall2 (fun fs l => obj_ok fs l) sets objs ->
+    Forall (fun fs => okf fs = true) sets ->
+    Forall (fun fs => no_opt fs = true) (tl sets) ->
+    Forall (obj_ok (merge_field_sets peq sets)) objs /\ okf (merge_field_sets peq sets) = true.
+  Proof.
+    intros F O NO. unfold merge_field_sets. destruct F as [|fs l sets objs Hfl F]; [split; [constructor|reflexivity]|].
+    cbn [tl] in NO. inversion O as [|? ? Ofs Os]; subst. cbn [fold_left].
+    pose proof Ofs as Ofs'. apply okf_iff in Ofs' as [ND _].
+    rewrite (merge_step_true fs ND).
+    assert (Hs : Forall (fun fs => okf fs = true /\ no_opt fs = true) sets).
+    { clear -Os NO. induction sets; constructor; inversion Os; inversion NO; subst; auto. }
+    destruct (merge_steps_false sets objs fs F Hs Ofs) as [J1 [J2 J3]].
+    split; [constructor; auto|exact J3].
+  Qed.
+  (* member form: an object valid for one of the sets is valid for the merged set *)
+  Lemma merge_steps_member : forall sets acc,
+    Forall (fun fs => okf fs = true /\ no_opt fs = true) sets -> okf acc = true ->
+    let final := snd (fold_left (merge_step peq) sets (false, acc)) in
+    (forall l, obj_ok acc l -> obj_ok final l) /\
+    (forall fs l, In fs sets -> obj_ok fs l -> obj_ok final l) /\ okf final = true.
+  Proof.
+    induction sets as [|fs sets IH]; intros acc Hs Oa; cbv zeta; cbn [fold_left].
+    - cbn [snd]. split; auto. split; auto. intros fs l [].
+    - inversion Hs as [|? ? [Ofs NOfs] Hs']; subst.
+      pose proof (merge_step_false acc fs Ofs NOfs Oa) as MS. cbv zeta in MS.
+      destruct (merge_step peq (false, acc) fs) as [b acc2]. cbn [fst snd] in MS.
+      destruct MS as [E1 [O2 [M1 M2]]]. subst b.
+      destruct (IH acc2 Hs' O2) as [J1 [J2 J3]].
+      split; [intros l0 H0; apply J1, M1, H0|]. split; [|exact J3].
+      intros fs0 l0 [<-|Hin] H0; [apply J1, M2, H0|eapply J2; eauto].
+  Qed.
+  Theorem merge_member_sound sets :
+    Forall (fun fs => okf fs = true) sets ->
+    Forall (fun fs => no_opt fs = true) (tl sets) ->
+    (forall fs l, In fs sets -> obj_ok fs l -> obj_ok (merge_field_sets peq sets) l) /\
+    okf (merge_field_sets peq sets) = true.
+  Proof.
+    intros O NO. unfold merge_field_sets. destruct sets as [|fs sets]; [split; [intros fs l []|reflexivity]|].
+    cbn [tl] in NO. inversion O as [|? ? Ofs Os]; subst. cbn [fold_left].
+    pose proof Ofs as Ofs'. apply okf_iff in Ofs' as [ND _].
+    rewrite (merge_step_true fs ND).
+    assert (Hs : Forall (fun fs => okf fs = true /\ no_opt fs = true) sets).
+    { clear -Os NO. induction sets; constructor; inversion Os; inversion NO; subst; auto. }
+    destruct (merge_steps_member sets fs Hs Ofs) as [J1 [J2 J3]].
+    split; [|exact J3]. intros fs0 l0 [<-|Hin] H0; [apply J1, H0|eapply J2; eauto].
+  Qed.
+  (* ---------------------------------------------------------------- *)
+  (* Relaxed form for the registry stage: the merged sets may carry Optional fields.  merge_field can then
+     produce a required union with an Optional *member* (merge_opt_refuted); the optimisation that follows
+     pulls it to the top.  hopt: Optional on top, or a union with an Optional member. *)
+  Definition obj_okh (fs : fields) (l : list (str * json)) : Prop :=
+    Forall (fun kv => exists t, lookup (fst kv) fs = Some t /\ ht (snd kv) t) l /\
+    (forall k t, lookup k fs = Some t -> hopt t = false -> In k (map fst l)).
+  Lemma obj_ok_okh fs l : obj_ok fs l -> obj_okh fs l.
+  Proof.
+    intros [H1 H2]. split; auto. intros k t L NO. apply (H2 k t L).
+    destruct (is_opt t) eqn:E; auto. apply hopt_is_opt in E. congruence.
+  Qed.
+  Lemma obj_okh_widen fs l k t t' :
+    lookup k fs = Some t -> wider t t' -> (hopt t' = false -> hopt t = false) ->
+    obj_okh fs l -> obj_okh (update k t' fs) l.
+  Proof.
+    intros Hk Hw Ho [H1 H2]. split.
+    - eapply Forall_impl; [|exact H1]. intros [k0 v0] [t0 [L0 Hv]]. simpl in *.
+      destruct (list_eq_dec N.eq_dec k0 k) as [->|Nk].
+      + exists t'. rewrite lookup_update_same. split; auto. apply Hw. congruence.
+      + exists t0. rewrite lookup_update_other; auto.
+    - intros k0 t0 L0 O0. destruct (list_eq_dec N.eq_dec k0 k) as [->|Nk].
+      + rewrite lookup_update_same in L0. inversion L0; subst. eapply H2; eauto.
+      + rewrite lookup_update_other in L0; eauto.
+  Qed.
+  Lemma obj_okh_add_opt fs l k t :
+    lookup k fs = None -> hopt t = true -> obj_okh fs l -> obj_okh (update k t fs) l.
+  Proof.
+    intros Hk Ho [H1 H2]. split.
+    - eapply Forall_impl; [|exact H1]. intros [k0 v0] [t0 [L0 Hv]]. simpl in *.
+      exists t0. split; auto. rewrite lookup_update_other; auto. intros ->. congruence.
+    - intros k0 t0 L0 O0. destruct (list_eq_dec N.eq_dec k0 k) as [->|Nk].
+      + rewrite lookup_update_same in L0. inversion L0; subst. congruence.
+      + rewrite lookup_update_other in L0; eauto.
+  Qed.
+
+  Lemma merge_field_mono_h acc l name field :
+    okf acc = true -> okt field = true -> obj_okh acc l -> obj_okh (merge_field peq false acc (name, field)) l.
+  Proof.
+    intros Oa Of H. unfold merge_field.
+    destruct (lookup name acc) as [fo|] eqn:L.
+    - pose proof (okf_lookup _ _ _ Oa L) as Ofo.
+      assert (NonOpt : is_opt fo = false ->
+        obj_okh (if py_eq peq fo field then acc
+                else match field with
+                     | TOpt f' => if py_eq peq fo f' then update name field acc
+                                  else update name (union1 (members field ++ members fo)) acc
+                     | _ => update name (union1 (members field ++ members fo)) acc
+                     end) l).
+      { intros NO. destruct (py_eq peq fo field); [exact H|].
+        assert (U : obj_okh (update name (union1 (members field ++ members fo)) acc) l).
+        { apply (obj_okh_widen acc l name fo _ L); [apply union1_wider_r | | exact H].
+          intros X. destruct (hopt fo) eqn:E; auto. rewrite (union1_hopt_r field fo E) in X. discriminate. }
+        destruct field; auto.
+        destruct (py_eq peq fo field) eqn:E; auto.
+        apply (obj_okh_widen acc l name fo _ L); [| intros; discriminate | exact H].
+        intros v Hv. apply GOptS. eapply py_eq_wider_l; eauto. }
+      destruct fo as [| | | | | |p|o ls|fo'|x|x|ts|fs|i]; try (apply NonOpt; reflexivity).
+      destruct (py_eq peq (TOpt fo') field || py_eq peq fo' field); [exact H|].
+      apply (obj_okh_widen acc l name (TOpt fo') _ L); [apply wider_opt_mono, union1_wider_r | intros; discriminate | exact H].
+    - simpl. apply obj_okh_add_opt; auto. destruct (is_opt field) eqn:O; auto. now apply hopt_is_opt.
+  Qed.
+
+  Definition covers_h (acc : fields) (k : str) (t : ty) : Prop :=
+    exists t', lookup k acc = Some t' /\ wider t t' /\ (hopt t' = false -> is_opt t = false).
+
+  Lemma merge_field_covers_h acc name field :
+    okf acc = true -> okt field = true -> covers_h (merge_field peq false acc (name, field)) name field.
+  Proof.
+    intros Oa Of. unfold merge_field, covers_h.
+    destruct (lookup name acc) as [fo|] eqn:L.
+    - pose proof (okf_lookup _ _ _ Oa L) as Ofo.
+      assert (UL : exists t', lookup name (update name (union1 (members field ++ members fo)) acc) = Some t' /\
+                     wider field t' /\ (hopt t' = false -> is_opt field = false)).
+      { eexists; split; [apply lookup_update_same|split; [apply union1_wider_l|]].
+        intros X. destruct (is_opt field) eqn:E; auto.
+        rewrite (union1_hopt_l field fo (hopt_is_opt _ E)) in X. discriminate. }
+      assert (NonOpt : is_opt fo = false ->
+        exists t', lookup name (if py_eq peq fo field then acc
+                else match field with
+                     | TOpt f' => if py_eq peq fo f' then update name field acc
+                                  else update name (union1 (members field ++ members fo)) acc
+                     | _ => update name (union1 (members field ++ members fo)) acc
+                     end) = Some t' /\ wider field t' /\ (hopt t' = false -> is_opt field = false)).
+      { intros NO. destruct (py_eq peq fo field) eqn:E.
+        - exists fo. split; [exact L|split].
+          + eapply py_eq_wider_r; eauto.
+          + intros _. destruct (is_opt field) eqn:Ef; auto.
+            apply (py_eq_opt_r peq _ _ E) in Ef. congruence.
+        - destruct field; try exact UL.
+          destruct (py_eq peq fo field) eqn:E2; [|exact UL].
+          eexists; split; [apply lookup_update_same|split; [intros v Hv; exact Hv|discriminate]]. }
+      destruct fo as [| | | | | |p|o ls|fo'|x|x|ts|fs|i]; try (apply NonOpt; reflexivity).
+      destruct (py_eq peq (TOpt fo') field) eqn:E1; simpl.
+      + exists (TOpt fo'). split; [exact L|split; [|discriminate]]. eapply py_eq_wider_r; eauto.
+      + destruct (py_eq peq fo' field) eqn:E2.
+        * exists (TOpt fo'). split; [exact L|split; [|discriminate]].
+          intros v Hv. apply GOptS. exact (py_eq_wider_r fo' field Ofo Of E2 v Hv).
+        * eexists; split; [apply lookup_update_same|split; [|discriminate]].
+          intros v Hv. apply GOptS. now apply union1_wider_l.
+    - simpl. destruct (is_opt field) eqn:Ef.
+      + eexists; split; [apply lookup_update_same|split; [intros v Hv; exact Hv|]].
+        intros X. rewrite (hopt_is_opt _ Ef) in X. discriminate.
+      + eexists; split; [apply lookup_update_same|split; [apply wider_opt|discriminate]].
+  Qed.
+
+  Lemma fold_merge_false_h : forall model acc,
+    okf model = true -> okf acc = true ->
+    let acc' := fold_left (merge_field peq false) model acc in
+    okf acc' = true /\
+    (forall l, obj_okh acc l -> obj_okh acc' l) /\
+    (forall k t, In (k, t) model -> covers_h acc' k t) /\
+    (forall k, ~ In k (map fst model) -> lookup k acc' = lookup k acc).
+  Proof.
+    induction model as [|[name field] r IH]; intros acc Om Oa; cbv zeta; cbn [fold_left].
+    - split; [exact Oa|split; [auto|split; [intros k t []|auto]]].
+    - apply okf_iff in Om as [ND Om]. simpl in ND. inversion ND as [|? ? Nin NDr]; subst.
+      inversion Om as [|? ? Ofield Or]; subst. simpl in Ofield.
+      assert (Or' : okf r = true) by (apply okf_iff; auto).
+      pose proof (merge_field_okf false acc name field Oa Ofield) as Oa1.
+      destruct (IH _ Or' Oa1) as [I1 [I2 [I3 I4]]].
+      split; [exact I1|]. split; [|split].
+      + intros l Hl. apply I2. apply merge_field_mono_h; auto.
+      + intros k t [Hin|Hin]; [|now apply I3].
+        inversion Hin; subst. unfold covers_h. rewrite (I4 k Nin).
+        apply merge_field_covers_h; auto.
+      + intros k Hk. rewrite I4 by (intros X; apply Hk; simpl; auto). apply merge_field_other. intros ->. apply Hk; simpl; auto.
+  Qed.
+
+  Lemma post_pass_mono_h acc model acc' l : obj_okh acc' l -> obj_okh (post_pass acc model acc') l.
+  Proof.
+    intros [H1 H2]. split.
+    - eapply Forall_impl; [|exact H1]. intros [k v] [t [L Hv]]. simpl in *.
+      rewrite post_pass_lookup, L. simpl. eexists; split; [reflexivity|].
+      destruct (has_key k acc && negb (has_key k model)); auto. now apply wider_wrap_opt.
+    - intros k t L NO. rewrite post_pass_lookup in L.
+      destruct (lookup k acc') as [t0|] eqn:L0; [|discriminate]. simpl in L. inversion L; subst.
+      destruct (has_key k acc && negb (has_key k model)).
+      + rewrite (hopt_is_opt _ (is_opt_wrap_opt t0)) in NO. discriminate.
+      + eauto.
+  Qed.
+
+  Lemma merge_step_false_h acc model :
+    okf model = true -> okf acc = true ->
+    let acc2 := snd (merge_step peq (false, acc) model) in
+    fst (merge_step peq (false, acc) model) = false /\
+    okf acc2 = true /\
+    (forall l, obj_okh acc l -> obj_okh acc2 l) /\
+    (forall l, obj_ok model l -> obj_okh acc2 l).
+  Proof.
+    intros Om Oa. simpl.
+    destruct (fold_merge_false_h model acc Om Oa) as [I1 [I2 [I3 I4]]].
+    fold (post_pass acc model (fold_left (merge_field peq false) model acc)).
+    set (acc' := fold_left (merge_field peq false) model acc) in *.
+    split; [reflexivity|]. split; [now apply post_pass_okf|]. split.
+    - intros l Hl. apply post_pass_mono_h. now apply I2.
+    - intros l [H1 H2]. split.
+      + eapply Forall_impl; [|exact H1]. intros [k v] [t [L Hv]]. simpl in *.
+        destruct (I3 k t (lookup_In _ _ _ L)) as [t' [L' [W _]]].
+        rewrite post_pass_lookup, L'. simpl. unfold has_key at 2. rewrite L. simpl.
+        rewrite andb_false_r. eexists; split; [reflexivity|]. now apply W.
+      + intros k t L NO. rewrite post_pass_lookup in L.
+        destruct (lookup k acc') as [t0|] eqn:L0; [|discriminate]. simpl in L. inversion L; subst. clear L.
+        destruct (has_key k acc && negb (has_key k model)) eqn:C.
+        * rewrite (hopt_is_opt _ (is_opt_wrap_opt t0)) in NO. discriminate.
+        * unfold has_key in C. destruct (lookup k model) as [tm|] eqn:Lm.
+          -- destruct (I3 k tm (lookup_In _ _ _ Lm)) as [t' [L' [_ O']]].
+             assert (t' = t0) by congruence. subst t'. apply (H2 k tm Lm). auto.
+          -- exfalso. rewrite (I4 k (lookup_None_notin _ _ Lm)) in L0. rewrite L0 in C. discriminate.
+  Qed.
+
+  Lemma merge_steps_member_h : forall sets acc,
+    Forall (fun fs => okf fs = true) sets -> okf acc = true ->
+    let final := snd (fold_left (merge_step peq) sets (false, acc)) in
+    (forall l, obj_okh acc l -> obj_okh final l) /\
+    (forall fs l, In fs sets -> obj_ok fs l -> obj_okh final l) /\ okf final = true.
+  Proof.
+    induction sets as [|fs sets IH]; intros acc Hs Oa; cbv zeta; cbn [fold_left].
+    - cbn [snd]. split; auto. split; auto. intros fs l [].
+    - inversion Hs as [|? ? Ofs Hs']; subst.
+      pose proof (merge_step_false_h acc fs Ofs Oa) as MS. cbv zeta in MS.
+      destruct (merge_step peq (false, acc) fs) as [b acc2]. cbn [fst snd] in MS.
+      destruct MS as [E1 [O2 [M1 M2]]]. subst b.
+      destruct (IH acc2 Hs' O2) as [J1 [J2 J3]].
+      split; [intros l0 H0; apply J1, M1, H0|]. split; [|exact J3].
+      intros fs0 l0 [<-|Hin] H0; [apply J1, M2, H0|eapply J2; eauto].
+  Qed.
+  (* merge alone, without no_opt: valid up to Optional members hidden in required unions *)
+  Theorem merge_member_sound_h sets :
+    Forall (fun fs => okf fs = true) sets ->
+    (forall fs l, In fs sets -> obj_ok fs l -> obj_okh (merge_field_sets peq sets) l) /\
+    okf (merge_field_sets peq sets) = true.
+  Proof.
+    intros O. unfold merge_field_sets. destruct sets as [|fs sets]; [split; [intros fs l []|reflexivity]|].
+    inversion O as [|? ? Ofs Os]; subst. cbn [fold_left].
+    pose proof Ofs as Ofs'. apply okf_iff in Ofs' as [ND _].
+    rewrite (merge_step_true fs ND).
+    destruct (merge_steps_member_h sets fs Os Ofs) as [J1 [J2 J3]].
+    split; [|exact J3]. intros fs0 l0 [<-|Hin] H0; [apply J1, obj_ok_okh, H0|eapply J2; eauto].
+  Qed.
+End MergeSound.
+
+(* without no_opt on the later sets the statement is false: an Optional field meeting a different required one
+   becomes a required union with an Optional member *)
+Example merge_opt_refuted :
+  let a : str := [97%N] in
+  let sets := [[(a, TInt)]; [(a, TOpt TStr)]] in
+  let objs := [[(a, JInt 1)]; []] in
+  merge_field_sets N.eqb sets = [(a, TUnion [TOpt TStr; TInt])] /\
+  Forall2 (fun fs l => obj_ok (fun _ _ => false) (fun _ => None) fs l) sets objs /\
+  ~ Forall (obj_ok (fun _ _ => false) (fun _ => None) (merge_field_sets N.eqb sets)) objs.
+Proof.
+  cbv zeta. split; [vm_compute; reflexivity|]. split.
+  - constructor; [|constructor; [|constructor]].
+    + split.
+      * constructor; [|constructor]. exists TInt. split; [reflexivity|constructor].
+      * intros k t L _. simpl in L. simpl. destruct (str_eqb k [97%N]) eqn:E; [|discriminate].
+        apply str_eqb_true in E. auto.
+    + split; [constructor|]. intros k t L NO. simpl in L.
+      destruct (str_eqb k [97%N]); [|discriminate]. inversion L; subst. discriminate.
+  - intros H. inversion H as [|? ? _ H']; subst. inversion H' as [|? ? [_ H2] _]; subst.
+    apply (H2 [97%N] (TUnion [TOpt TStr; TInt])); reflexivity.
+Qed.
+
+(* ------------------------------------------------------------------ *)
+(* (5) resolve / str_result                                            *)
+(* ------------------------------------------------------------------ *)
+(* As stated (only "replaces is sound") resolve_sound is false: with a cyclic replaces relation one round
+   drops every member. *)
+Example resolve_cyclic_refuted :
+  let replaces := [(PInt, PFloat); (PFloat, PInt)] in
+  (forall a b, In (a, b) replaces -> forall s : str, (fun _ _ => true) a s = true -> (fun (_ : pseudo) (_ : str) => true) b s = true) /\
+  resolve replaces 3 [PInt; PFloat] = [] /\
+  str_result replaces [TPseudo PInt; TPseudo PFloat; TPseudo PDate] = [TPseudo PDate].
+Proof. cbv zeta. split; [auto|]. split; vm_compute; reflexivity. Qed.
+
+Section Resolve.
+  Variable accepts : pseudo -> str -> bool.
+  Variable mf : N -> option fields.
+  Variable uk : bool.
+  Variable replaces : list (pseudo * pseudo).
+  Notation ht := (htg accepts mf uk).
+  Hypothesis Hrep : forall a b, In (a, b) replaces -> forall s, accepts a s = true -> accepts b s = true.
+  (* decidable acyclicity certificate: every proper replaces edge goes up in rank *)
+  Variable rank : pseudo -> nat.
+  Hypothesis Hrank : forallb (fun pq => pseudo_eqb (fst pq) (snd pq) || (rank (fst pq) <? rank (snd pq))) replaces = true.
+
+  Definition pcov (p q : pseudo) : Prop := forall s, accepts p s = true -> accepts q s = true.
+
+  Lemma replaced_by_inv ps p : replaced_by replaces ps p = true ->
+    exists q, In q ps /\ p <> q /\ In (p, q) replaces.
+  Proof.
+    unfold replaced_by. intros H. apply existsb_exists in H as [q [Hq H]].
+    apply andb_prop in H as [N H]. apply existsb_exists in H as [[a b] [Hin H]].
+    apply andb_prop in H as [H1 H2]. simpl in *. apply pseudo_eqb_true in H1, H2. subst.
+    exists q. repeat split; auto. intros ->. rewrite pseudo_eqb_refl in N. discriminate.
+  Qed.
+  Lemma rank_lt a b : In (a, b) replaces -> a <> b -> rank a < rank b.
+  Proof.
+    intros Hin N. rewrite forallb_forall in Hrank. specialize (Hrank _ Hin). simpl in Hrank.
+    apply orb_prop in Hrank as [H|H].
+    - apply pseudo_eqb_true in H. contradiction.
+    - now apply Nat.ltb_lt in H.
+  Qed.
+  Definition rank_top : nat :=
+    rank PInt + rank PFloat + rank PBool + rank PDate + rank PTime + rank PDatetime.
+  Lemma rank_le_top p : rank p <= rank_top.
+  Proof. unfold rank_top. destruct p; lia. Qed.
+
+  Lemma round_cover ps : forall n p, In p ps -> rank_top - rank p < n ->
+    exists q, In q (filter (fun t => negb (replaced_by replaces ps t)) ps) /\ pcov p q.
+  Proof.
+    induction n as [|n IH]; intros p Hp Hn; [lia|].
+    destruct (replaced_by replaces ps p) eqn:R.
+    - apply replaced_by_inv in R as [q [Hq [Npq Hin]]].
+      pose proof (rank_lt _ _ Hin Npq) as Lt. pose proof (rank_le_top q) as Le.
+      destruct (IH q Hq) as [q' [Hq' C]]; [lia|].
+      exists q'. split; auto. intros s Hs. apply C. eapply Hrep; eauto.
+    - exists p. split; [|intros s Hs; exact Hs]. apply filter_In. rewrite R. auto.
+  Qed.
+
+  Theorem resolve_sound : forall fuel ps p, In p ps ->
+    exists q, In q (resolve replaces fuel ps) /\ forall s, accepts p s = true -> accepts q s = true.
+  Proof.
+    induction fuel as [|f IH]; intros ps p Hp; simpl.
+    - exists p. auto.
+    - destruct (existsb (replaced_by replaces ps) ps).
+      + destruct (round_cover ps (S (rank_top - rank p)) p Hp) as [q [Hq C]]; [lia|].
+        destruct (IH _ q Hq) as [q' [Hq' C']]. exists q'. split; auto.
+      + exists p. auto.
+  Qed.
+
+  Lemma pdedup_in p : forall l, In p l -> In p (pdedup l).
+  Proof.
+    unfold pdedup. intros l.
+    assert (G : forall acc, In p acc \/ In p l ->
+      In p (fold_left (fun acc p => if pmem p acc then acc else acc ++ [p]) l acc)).
+    { induction l as [|x r IH]; simpl; intros acc H.
+      - destruct H as [H|[]]; auto.
+      - apply IH. destruct H as [H|[H|H]]; auto.
+        + left. destruct (pmem x acc); auto. apply in_or_app. auto.
+        + subst. left. destruct (pmem p acc) eqn:E.
+          * unfold pmem in E. apply existsb_exists in E as [y [Hy Ey]]. apply pseudo_eqb_true in Ey. now subst.
+          * apply in_or_app. simpl. auto. }
+    intros H. apply G. auto.
+  Qed.
+
+  Corollary str_result_sound strs t v :
+    In t strs -> (t = TStr \/ exists p, t = TPseudo p) -> ht v t -> Exists (ht v) (str_result replaces strs).
+  Proof.
+    intros Hin Ht Hv.
+    assert (S : exists s, v = JStr s).
+    { destruct Ht as [->|[p ->]]; inversion Hv; subst; eauto. }
+    destruct S as [s ->]. unfold str_result.
+    destruct (existsb is_str strs) eqn:Es; [constructor; constructor|].
+    assert (M : forall X : list ty, match strs with [] => [] | _ :: _ => X end = X)
+      by (destruct strs; [inversion Hin|reflexivity]).
+    rewrite M. clear M. cbv zeta.
+    destruct Ht as [->|[p ->]].
+    { exfalso. assert (X : existsb is_str strs = true) by (apply existsb_exists; exists TStr; auto). congruence. }
+    inversion Hv; subst.
+    assert (Hp : In p (pseudos_of strs)).
+    { unfold pseudos_of. apply pdedup_in. apply in_flat_map. exists (TPseudo p). simpl. auto. }
+    destruct (resolve_sound (S (length (pseudos_of strs))) _ p Hp) as [q [Hq C]].
+    destruct (resolve replaces (S (length (pseudos_of strs))) (pseudos_of strs)) as [|q0 [|q1 qr]].
+    - constructor; constructor.
+    - destruct Hq as [->|[]]. constructor. constructor. auto.
+    - constructor; constructor.
+  Qed.
+End Resolve.
+
+(* ------------------------------------------------------------------ *)
+(* (6) optimize                                                        *)
+(* ------------------------------------------------------------------ *)
+(* optimize_sound is false for the official semantics: Any is dropped beside a concrete member, so a value
+   accepted only by Any is lost *)
+Example optimize_any_refuted :
+  let t := TUnion [TUnknown; TInt] in
+  optimize [] [] N.eqb 5 t = Some TInt /\
+  ht (fun _ _ => false) (fun _ => None) (JStr []) t /\
+  ~ ht (fun _ _ => false) (fun _ => None) (JStr []) TInt.
+Proof.
+  cbv zeta. split; [vm_compute; reflexivity|]. split.
+  - apply HUnion with (t := TUnknown); [simpl; auto|constructor].
+  - intros H. inversion H.
+Qed.
+(* ... and no decidable condition on the term helps: the raw term below is what two samples {"f": []} and
+   {"f": [1]} produce; the official semantics of TList TUnknown accepts every array. *)
+Example optimize_any_refuted_raw :
+  let t := TUnion [TList TUnknown; TList TInt] in
+  optimize [] [] N.eqb 5 t = Some (TList TInt) /\
+  ht (fun _ _ => false) (fun _ => None) (JArr [JStr []]) t /\
+  ~ ht (fun _ _ => false) (fun _ => None) (JArr [JStr []]) (TList TInt).
+Proof.
+  cbv zeta. split; [vm_compute; reflexivity|]. split.
+  - apply HUnion with (t := TList TUnknown); [simpl; auto|]. constructor. constructor; constructor.
+  - intros H. inversion H; subst.
+    match goal with HF : Forall _ [JStr []] |- _ => inversion HF as [|? ? H1 _]; subst; inversion H1 end.
+Qed.
+
+Definition olist (o : ty -> option ty) : list ty -> option (list ty) :=
+  fix go (l : list ty) : option (list ty) :=
+  match l with
+  | [] => Some []
+  | x :: r => match o x, go r with Some x', Some r' => Some (x' :: r') | _, _ => None end
+  end.
+Definition ofields (o : ty -> option ty) : fields -> option fields :=
+  fix go (l : fields) : option fields :=
+  match l with
+  | [] => Some []
+  | (k, x) :: r => match o x, go r with Some x', Some r' => Some ((k, x') :: r') | _, _ => None end
+  end.
+Lemma optimize_S registry replaces peq fuel t :
+  optimize registry replaces peq (S fuel) t =
+  match t with
+  | TObj fs => option_map TObj (ofields (optimize registry replaces peq fuel) fs)
+  | TOpt x => match optimize registry replaces peq fuel x with
+              | Some (TOpt y) => Some (TOpt y) | Some y => Some (TOpt y) | None => None end
+  | TList x => option_map TList (optimize registry replaces peq fuel x)
+  | TDict x => option_map TDict (optimize registry replaces peq fuel x)
+  | TLit o ls => Some (if o || match ls with [] => true | _ => false end then TStr else t)
+  | TUnion ts => match olist (optimize registry replaces peq fuel) (regroup registry replaces peq ts) with
+                 | None => None | Some types => finish types end
+  | _ => Some t
+  end.
+Proof. destruct t; reflexivity. Qed.
+
+Lemma olist_Forall2 o : forall l l', olist o l = Some l' -> Forall2 (fun x x' => o x = Some x') l l'.
+Proof.
+  induction l as [|x r IH]; simpl; intros l' H.
+  - inversion H. constructor.
+  - destruct (o x) as [x'|] eqn:E; [|discriminate]. destruct (olist o r) as [r'|]; [|discriminate].
+    inversion H; subst. constructor; auto.
+Qed.
+Lemma ofields_lookup o : forall l l', ofields o l = Some l' -> forall k,
+  match lookup k l with
+  | Some t => exists t', lookup k l' = Some t' /\ o t = Some t'
+  | None => lookup k l' = None
+  end.
+Proof.
+  induction l as [|[k0 x] r IH]; simpl; intros l' H k.
+  - inversion H. reflexivity.
+  - destruct (o x) as [x'|] eqn:E; [|discriminate]. destruct (ofields o r) as [r'|] eqn:E'; [|discriminate].
+    inversion H; subst. simpl. destruct (str_eqb k k0); eauto. apply IH; auto.
+Qed.
+
+Lemma remove_first_keep {A} (f : A -> bool) x : forall l, In x l -> f x = false -> In x (remove_first f l).
+Proof.
+  induction l as [|y r IH]; simpl; intros H F; [contradiction|].
+  destruct H as [->|H].
+  - rewrite F. simpl. auto.
+  - destruct (f y); simpl; auto.
+Qed.
+Lemma remove_first_sub {A} (f : A -> bool) x : forall l, In x (remove_first f l) -> In x l.
+Proof.
+  induction l as [|y r IH]; simpl; intros H; [contradiction|].
+  destruct (f y); simpl in *; tauto.
+Qed.
+
+Section Finish.
+  Variable accepts : pseudo -> str -> bool.
+  Variable mf : N -> option fields.
+  Notation hts := (htg accepts mf false).
+
+  Lemma finish_sound v types t' : Exists (hts v) types -> finish types = Some t' -> hts v t'.
+  Proof.
+    intros H F. apply Exists_exists in H as [t [Hin Ht]].
+    destruct types as [|x [|y r]]; [inversion Hin| |].
+    - simpl in F. inversion F; subst. destruct Hin as [->|[]]. exact Ht.
+    - remember (x :: y :: r) as types eqn:ET.
+      assert (F' : Some (let types1 := if existsb is_unknown types && existsb (fun t => negb (is_unknown t) && negb (is_null t)) types
+                   then remove_first is_unknown types else types in
+               if existsb is_null types1 then TOpt (union1 (filter (fun x => negb (is_null x)) types1))
+               else union1 (filter (fun x => negb (is_null x)) types1)) = Some t').
+      { rewrite <- F. subst types. reflexivity. }
+      clear F. inversion F' as [F]. clear F'. cbv zeta.
+      set (types1 := if existsb is_unknown types && existsb (fun t => negb (is_unknown t) && negb (is_null t)) types
+                   then remove_first is_unknown types else types).
+      assert (NU : is_unknown t = false).
+      { destruct t; auto. inversion Ht. discriminate. }
+      assert (In1 : In t types1).
+      { unfold types1. destruct (existsb is_unknown types && _); auto. now apply remove_first_keep. }
+      destruct (is_null t) eqn:NN.
+      + destruct t; try discriminate. inversion Ht; subst.
+        assert (E : existsb is_null types1 = true) by (apply existsb_exists; exists TNull; auto).
+        rewrite E. constructor.
+      + assert (M : hts v (union1 (filter (fun x => negb (is_null x)) types1))).
+        { apply union1_sound. apply Exists_exists. exists t. split; auto. apply filter_In. rewrite NN. auto. }
+        destruct (existsb is_null types1); auto. now apply GOptS.
+  Qed.
+End Finish.
+
+Definition okT (t : ty) : bool := match t with TObj fs => okf fs | _ => okt t end.
+Lemma okt_okT t : okt t = true -> okT t = true.
+Proof. destruct t; auto. simpl okT. rewrite okt_obj. intros H. apply andb_prop in H. tauto. Qed.
+
+Definition add_null (st : cats) : cats :=
+  let '(strs, objs, lists, dicts, other) := st in (strs, objs, lists, dicts, other ++ [TNull]).
+Definition classify (registry : list pseudo) (st : cats) (item : ty) : cats :=
+  let '(strs, objs, lists, dicts, other) := st in
+  match item with
+  | TObj f => (strs, objs ++ [f], lists, dicts, other)
+  | TList x => (strs, objs, lists ++ [x], dicts, other)
+  | TDict x => (strs, objs, lists, dicts ++ [x], other)
+  | _ => if in_reg registry item then (strs ++ [item], objs, lists, dicts, other)
+         else (strs, objs, lists, dicts, other ++ [item])
+  end.
+Lemma split_step_eq registry st t :
+  split_step registry st t =
+  match t with TOpt x => classify registry (add_null st) x | _ => classify registry st t end.
+Proof. destruct st as [[[[strs objs] lists] dicts] other]. destruct t; reflexivity. Qed.
+
+Section Regroup.
+  Variable accepts : pseudo -> str -> bool.
+  Variable mf : N -> option fields.
+  Variable registry : list pseudo.
+  Variable replaces : list (pseudo * pseudo).
+  Variable peq : N -> N -> bool.
+  Notation hts := (htg accepts mf false).
+  Hypothesis Hpeq : forall i j, peq i j = true -> forall v, hts v (TPtr i) <-> hts v (TPtr j).
+  Hypothesis Hrep : forall a b, In (a, b) replaces -> forall s, accepts a s = true -> accepts b s = true.
+  Variable rank : pseudo -> nat.
+  Hypothesis Hrank : forallb (fun pq => pseudo_eqb (fst pq) (snd pq) || (rank (fst pq) <? rank (snd pq))) replaces = true.
+
+  Definition sreg (t : ty) : Prop := t = TStr \/ exists p, t = TPseudo p.
+  Definition catinv (st : cats) : Prop :=
+    let '(strs, objs, lists, dicts, other) := st in
+    Forall sreg strs /\ Forall (fun f => okf f = true /\ no_opt f = true) objs /\
+    okts lists /\ okts dicts /\ okts other.
+  Definition catcov (v : json) (st : cats) : Prop :=
+    let '(strs, objs, lists, dicts, other) := st in
+    Exists (hts v) other \/ Exists (hts v) strs \/ Exists (fun f => hts v (TObj f)) objs \/
+    Exists (fun x => hts v (TList x)) lists \/ Exists (fun x => hts v (TDict x)) dicts.
+
+  Lemma add_null_inv st : catinv st -> catinv (add_null st).
+  Proof.
+    destruct st as [[[[strs objs] lists] dicts] other]. simpl. intros [A [B [C [D E]]]].
+    repeat split; auto. apply Forall_app. split; auto.
+  Qed.
+  Lemma add_null_keep v st : catcov v st -> catcov v (add_null st).
+  Proof.
+    destruct st as [[[[strs objs] lists] dicts] other]. simpl. rewrite Exists_app. tauto.
+  Qed.
+  Lemma add_null_new st : catcov JNull (add_null st).
+  Proof.
+    destruct st as [[[[strs objs] lists] dicts] other]. simpl. left. apply Exists_app. right.
+    constructor. constructor.
+  Qed.
+  Lemma classify_inv st t : catinv st -> okt t = true -> catinv (classify registry st t).
+  Proof.
+    destruct st as [[[[strs objs] lists] dicts] other]. intros [A [B [C [D E]]]] O.
+    assert (Def : catinv (if in_reg registry t then (strs ++ [t], objs, lists, dicts, other)
+                          else (strs, objs, lists, dicts, other ++ [t]))).
+    { destruct (in_reg registry t) eqn:R; simpl; repeat split; auto; apply Forall_app; split; auto.
+      constructor; [|constructor]. destruct t; try discriminate; [left; auto|right; eauto]. }
+    destruct t; try exact Def; simpl; repeat split; auto; apply Forall_app; split; auto.
+    rewrite okt_obj in O. apply andb_prop in O. constructor; auto.
+  Qed.
+  Lemma classify_keep v st t : catcov v st -> catcov v (classify registry st t).
+  Proof.
+    destruct st as [[[[strs objs] lists] dicts] other]. intros H. simpl in H.
+    destruct t; simpl; try (destruct (pmem _ _)); simpl; rewrite ?Exists_app; tauto.
+  Qed.
+  Lemma classify_new v st t : hts v t -> catcov v (classify registry st t).
+  Proof.
+    destruct st as [[[[strs objs] lists] dicts] other]. intros H.
+    assert (Def : catcov v (if in_reg registry t then (strs ++ [t], objs, lists, dicts, other)
+                            else (strs, objs, lists, dicts, other ++ [t]))).
+    { destruct (in_reg registry t); simpl; rewrite Exists_app.
+      - right. left. right. constructor. exact H.
+      - left. right. constructor. exact H. }
+    destruct t; try exact Def; simpl; rewrite Exists_app.
+    - right. right. right. left. right. constructor. exact H.
+    - right. right. right. right. right. constructor. exact H.
+    - right. right. left. right. constructor. exact H.
+  Qed.
+  Lemma split_fold : forall ts st, catinv st -> okts ts ->
+    catinv (fold_left (split_step registry) ts st) /\
+    (forall v, catcov v st -> catcov v (fold_left (split_step registry) ts st)) /\
+    (forall v, Exists (hts v) ts -> catcov v (fold_left (split_step registry) ts st)).
+  Proof.
+    induction ts as [|t r IH]; intros st I O; cbn [fold_left].
+    - split; auto. split; auto. intros v H. inversion H.
+    - inversion O as [|? ? Ot Or]; subst.
+      assert (I1 : catinv (split_step registry st t)).
+      { rewrite split_step_eq. destruct t; try (apply classify_inv; assumption).
+        apply classify_inv; [now apply add_null_inv|exact Ot]. }
+      assert (K1 : forall v, catcov v st -> catcov v (split_step registry st t)).
+      { intros v H. rewrite split_step_eq. destruct t; try (apply classify_keep; assumption).
+        apply classify_keep. now apply add_null_keep. }
+      assert (N1 : forall v, hts v t -> catcov v (split_step registry st t)).
+      { intros v H. rewrite split_step_eq. destruct t; try (apply classify_new; assumption).
+        inversion H; subst.
+        - apply classify_keep, add_null_new.
+        - apply classify_new; auto. }
+      destruct (IH _ I1 Or) as [J1 [J2 J3]].
+      split; auto. split; auto.
+      intros v H. inversion H; subst; auto.
+  Qed.
+
+  Lemma regroup_sound ts : okts ts ->
+    Forall (fun t => okT t = true) (regroup registry replaces peq ts) /\
+    forall v, Exists (hts v) ts -> Exists (hts v) (regroup registry replaces peq ts).
+  Proof.
+    intros O. unfold regroup.
+    assert (I0 : catinv ([], [], [], [], [])) by (simpl; repeat split; constructor).
+    destruct (split_fold ts _ I0 O) as [I [_ C]].
+    destruct (fold_left (split_step registry) ts ([], [], [], [], [])) as [[[[strs objs] lists] dicts] other].
+    destruct I as [Is [Io [Il [Id Ie]]]].
+    set (other' := if existsb (ty_eqb TInt) other && existsb (ty_eqb TFloat) other
+                   then remove_first (ty_eqb TInt) other else other).
+    assert (Oo' : okts other').
+    { unfold other'. destruct (_ && _); auto. rewrite Forall_forall in *. intros x Hx.
+      apply Ie. eapply remove_first_sub; eauto. }
+    assert (Co' : forall v, Exists (hts v) other -> Exists (hts v) other').
+    { intros v H. unfold other'.
+      destruct (existsb (ty_eqb TInt) other && existsb (ty_eqb TFloat) other) eqn:E; auto.
+      apply andb_prop in E as [_ E]. apply existsb_exists in E as [x [Hx Ex]]. apply ty_eqb_eq in Ex. subst x.
+      apply Exists_exists in H as [t [Hin Ht]]. apply Exists_exists.
+      destruct (ty_eqb TInt t) eqn:Et.
+      - apply ty_eqb_eq in Et. subst t. inversion Ht; subst.
+        exists TFloat. split; [apply remove_first_keep; auto|constructor].
+      - exists t. split; auto. apply remove_first_keep; auto. }
+    assert (Mo : match objs with [] => True | _ =>
+               okf (merge_field_sets peq objs) = true /\
+               forall v, Exists (fun f => hts v (TObj f)) objs -> hts v (TObj (merge_field_sets peq objs)) end).
+    { destruct objs as [|f0 fr] eqn:Eo; [exact I|]. rewrite <- Eo in *.
+      assert (O1 : Forall (fun fs => okf fs = true) objs).
+      { eapply Forall_impl; [|exact Io]. simpl. tauto. }
+      assert (O2 : Forall (fun fs => no_opt fs = true) (tl objs)).
+      { destruct objs; simpl; [constructor|]. inversion Io; subst. eapply Forall_impl; [|eassumption]. simpl. tauto. }
+      destruct (merge_member_sound accepts mf false peq Hpeq objs O1 O2) as [M1 M2].
+      split; auto. intros v H. apply Exists_exists in H as [f [Hf Hv]].
+      inversion Hv; subst. destruct (M1 f l Hf) as [A B]; [split; auto|]. now apply GObj. }
+    split.
+    - repeat (apply Forall_app; split).
+      + eapply Forall_impl; [|exact Oo']. intros x. apply okt_okT.
+      + destruct objs; [constructor|]. constructor; [|constructor]. simpl. tauto.
+      + destruct lists; [constructor|]. constructor; [|constructor]. simpl. now apply dunion_okt.
+      + destruct dicts; [constructor|]. constructor; [|constructor]. simpl. now apply dunion_okt.
+      + unfold str_result. destruct (existsb is_str strs); [repeat constructor|].
+        destruct strs; [constructor|]. cbv zeta.
+        destruct (resolve _ _ _) as [|q0 [|q1 qr]]; repeat constructor.
+    - intros v H. specialize (C v H). simpl in C. rewrite !Exists_app.
+      destruct C as [C|[C|[C|[C|C]]]].
+      + left. left. left. left. auto.
+      + right. apply Exists_exists in C as [t [Hin Ht]].
+        rewrite Forall_forall in Is.
+        eapply (str_result_sound accepts mf false replaces Hrep rank Hrank); eauto. apply (Is _ Hin).
+      + left. left. left. right. destruct objs; [inversion C|]. constructor. now apply Mo.
+      + left. left. right. destruct lists as [|x0 xr] eqn:El; [inversion C|]. rewrite <- El in *.
+        constructor. apply Exists_exists in C as [x [Hin Hx]]. inversion Hx; subst. constructor.
+        eapply Forall_impl; [|eassumption]. intros e He. apply dunion_sound.
+        apply Exists_exists. eauto.
+      + left. right. destruct dicts as [|x0 xr] eqn:El; [inversion C|]. rewrite <- El in *.
+        constructor. apply Exists_exists in C as [x [Hin Hx]]. inversion Hx; subst. constructor.
+        eapply Forall_impl; [|eassumption]. intros e He. apply dunion_sound.
+        apply Exists_exists. eauto.
+  Qed.
+End Regroup.
+
+Lemma optimize_is_opt registry replaces peq fuel t t' :
+  optimize registry replaces peq fuel t = Some t' -> is_opt t = true -> is_opt t' = true.
+Proof.
+  destruct fuel; [discriminate|]. rewrite optimize_S. destruct t; try discriminate.
+  intros H _. destruct (optimize registry replaces peq fuel t) as [[]|]; inversion H; reflexivity.
+Qed.
+
+Section OptimizeSound.
+  Variable accepts : pseudo -> str -> bool.
+  Variable mf : N -> option fields.
+  Variable registry : list pseudo.
+  Variable replaces : list (pseudo * pseudo).
+  Variable peq : N -> N -> bool.
+  Notation hts := (htg accepts mf false).
+  Hypothesis Hpeq : forall i j, peq i j = true -> forall v, hts v (TPtr i) <-> hts v (TPtr j).
+  Hypothesis Hrep : forall a b, In (a, b) replaces -> forall s, accepts a s = true -> accepts b s = true.
+  Variable rank : pseudo -> nat.
+  Hypothesis Hrank : forallb (fun pq => pseudo_eqb (fst pq) (snd pq) || (rank (fst pq) <? rank (snd pq))) replaces = true.
+  Notation optimize := (optimize registry replaces peq).
+
+  Lemma exists_opt (o : ty -> option ty) v : forall l l',
+    Forall2 (fun x x' => o x = Some x') l l' -> Forall (fun t => okT t = true) l ->
+    (forall x x', okT x = true -> o x = Some x' -> hts v x -> hts v x') ->
+    Exists (hts v) l -> Exists (hts v) l'.
+  Proof.
+    intros l l' F. induction F as [|x x' r r' Hx F IH]; intros O HI E; [inversion E|].
+    inversion O; subst. inversion E; subst.
+    - constructor. eapply HI; eauto.
+    - constructor 2. apply IH; auto.
+  Qed.
+
+  (* (6), for the strict semantics.  Side condition (decidable): okT t. *)
+  Theorem optimize_sound_strict : forall fuel t t', okT t = true -> optimize fuel t = Some t' ->
+    forall v, hts v t -> hts v t'.
+  Proof.
+    induction fuel as [|fuel IH]; intros t t' O E v Hv; [discriminate|].
+    rewrite optimize_S in E. destruct t; try (inversion E; subst; exact Hv).
+    - (* TLit *) inversion E; subst. inversion Hv; subst; simpl.
+      + destruct ls; [contradiction|]. exact Hv.
+      + constructor.
+    - (* TOpt *) simpl in O. destruct (optimize fuel t) as [y|] eqn:Ey; [|discriminate].
+      assert (R : t' = match y with TOpt y' => TOpt y' | _ => TOpt y end) by (destruct y; inversion E; reflexivity).
+      inversion Hv; subst.
+      + destruct y; constructor.
+      + assert (Hy : hts v y) by (eapply IH; eauto; now apply okt_okT).
+        destruct y; try (apply GOptS; exact Hy). exact Hy.
+    - (* TList *) simpl in O. destruct (optimize fuel t) as [y|] eqn:Ey; [|discriminate].
+      inversion E; subst. inversion Hv; subst. constructor.
+      eapply Forall_impl; [|eassumption]. intros e He. eapply IH; eauto. now apply okt_okT.
+    - (* TDict *) simpl in O. destruct (optimize fuel t) as [y|] eqn:Ey; [|discriminate].
+      inversion E; subst. inversion Hv; subst. constructor.
+      eapply Forall_impl; [|eassumption]. intros e He. eapply IH; eauto. now apply okt_okT.
+    - (* TUnion *) unfold okT in O. rewrite okt_union in O.
+      assert (Ots : okts ts) by (rewrite forallb_forall in O; apply Forall_forall; auto).
+      destruct (regroup_sound accepts mf registry replaces peq Hpeq Hrep rank Hrank ts Ots) as [R1 R2].
+      destruct (olist (optimize fuel) (regroup registry replaces peq ts)) as [types|] eqn:EL; [|discriminate].
+      apply olist_Forall2 in EL.
+      apply (finish_sound accepts mf v types t'); auto.
+      apply (exists_opt (optimize fuel) v _ _ EL R1).
+      + intros x x' Ox Ex Hx. eapply IH; eauto.
+      + apply R2. inversion Hv; subst. apply Exists_exists. eauto.
+    - (* TObj *) simpl in O.
+      destruct (ofields (optimize fuel) fs) as [fs'|] eqn:EF; [|discriminate].
+      inversion E; subst. pose proof (ofields_lookup _ _ _ EF) as L.
+      inversion Hv; subst.
+      match goal with H1 : Forall _ l, H2 : forall k t, lookup k fs = Some t -> _ |- _ => rename H1 into V1; rename H2 into V2 end.
+      apply GObj.
+      + eapply Forall_impl; [|exact V1]. intros [k w] [t [Lk Hw]]. simpl in *.
+        specialize (L k). rewrite Lk in L. destruct L as [t2 [L2 E2]].
+        exists t2. split; auto. eapply IH; eauto. apply okt_okT. eapply okf_lookup; eauto.
+      + intros k t2 L2 NO. specialize (L k). destruct (lookup k fs) as [t|] eqn:Lk; [|congruence].
+        destruct L as [t3 [L3 E3]]. assert (t3 = t2) by congruence. subst t3.
+        apply (V2 k t); auto. destruct (is_opt t) eqn:Ot; auto.
+        rewrite (optimize_is_opt _ _ _ _ _ _ E3 Ot) in NO. discriminate.
+  Qed.
+End OptimizeSound.
+
+(* ------------------------------------------------------------------ *)
+(* (d) registry stage: merge followed by optimize                       *)
+(* ------------------------------------------------------------------ *)
+(* a union with an Optional member is Optional after optimisation *)
+Definition catK (st : cats) : Prop :=
+  let '(strs, objs, lists, dicts, other) := st in
+  In TNull other /\
+  (2 <= length other \/ 1 <= length objs \/ 1 <= length lists \/ 1 <= length dicts \/ 1 <= length strs).
+Lemma classify_K registry st t : catK st -> catK (classify registry st t).
+Proof.
+  destruct st as [[[[strs objs] lists] dicts] other]. intros [A B].
+  destruct t; simpl; try (destruct (pmem _ _)); simpl; rewrite ?app_length, ?in_app_iff; simpl; split; auto; lia.
+Qed.
+Lemma add_null_K st : catK st -> catK (add_null st).
+Proof.
+  destruct st as [[[[strs objs] lists] dicts] other]. intros [A B].
+  simpl; rewrite ?app_length, ?in_app_iff; simpl; split; auto; lia.
+Qed.
+Lemma classify_null_K registry st x : catK (classify registry (add_null st) x).
+Proof.
+  destruct st as [[[[strs objs] lists] dicts] other].
+  destruct x; simpl; try (destruct (pmem _ _)); simpl; rewrite ?app_length, ?in_app_iff; simpl; split; auto; lia.
+Qed.
+Lemma split_fold_K registry : forall ts st,
+  (catK st -> catK (fold_left (split_step registry) ts st)) /\
+  (existsb is_opt ts = true -> catK (fold_left (split_step registry) ts st)).
+Proof.
+  induction ts as [|t r IH]; intros st; cbn [fold_left].
+  - split; auto. discriminate.
+  - assert (K1 : catK st -> catK (split_step registry st t)).
+    { intros H. rewrite split_step_eq. destruct t; try (now apply classify_K).
+      apply classify_K. now apply add_null_K. }
+    destruct (IH (split_step registry st t)) as [I1 I2].
+    split; [auto|]. simpl. intros H. apply orb_prop in H as [H|H]; [|auto].
+    apply I1. rewrite split_step_eq. destruct t; try discriminate. apply classify_null_K.
+Qed.
+Lemma remove_first_length {A} (f : A -> bool) : forall l, length l <= S (length (remove_first f l)).
+Proof. induction l as [|x r IH]; simpl; auto. destruct (f x); simpl; lia. Qed.
+Lemma In_length_pos {A} (x : A) l : In x l -> 1 <= length l.
+Proof. destruct l; simpl; [contradiction|lia]. Qed.
+Lemma str_result_len replaces strs : 1 <= length strs -> 1 <= length (str_result replaces strs).
+Proof.
+  intros H. unfold str_result. destruct (existsb is_str strs); [simpl; lia|].
+  destruct strs; [simpl in H; lia|]. cbv zeta.
+  destruct (resolve _ _ _) as [|q0 [|q1 qr]]; simpl; lia.
+Qed.
+Lemma regroup_K registry replaces peq ts : existsb is_opt ts = true ->
+  In TNull (regroup registry replaces peq ts) /\ 2 <= length (regroup registry replaces peq ts).
+Proof.
+  intros H. destruct (split_fold_K registry ts ([], [], [], [], [])) as [_ K]. specialize (K H).
+  unfold regroup.
+  destruct (fold_left (split_step registry) ts ([], [], [], [], [])) as [[[[strs objs] lists] dicts] other].
+  destruct K as [KN KL].
+  set (other' := if existsb (ty_eqb TInt) other && existsb (ty_eqb TFloat) other
+                 then remove_first (ty_eqb TInt) other else other).
+  assert (N' : In TNull other').
+  { unfold other'. destruct (_ && _); auto. apply remove_first_keep; auto. }
+  assert (L' : 2 <= length other -> 2 <= length other').
+  { intros L2. unfold other'.
+    destruct (existsb (ty_eqb TInt) other && existsb (ty_eqb TFloat) other) eqn:E; auto.
+    apply andb_prop in E as [E1 E2].
+    apply existsb_exists in E1 as [x [Hx Ex]]. apply ty_eqb_eq in Ex. subst x.
+    apply existsb_exists in E2 as [y [Hy Ey]]. apply ty_eqb_eq in Ey. subst y.
+    assert (L3 : length [TNull; TInt; TFloat] <= length other).
+    { apply NoDup_incl_length.
+      - repeat constructor; simpl; intuition discriminate.
+      - intros z [<-|[<-|[<-|[]]]]; auto. }
+    simpl in L3. pose proof (remove_first_length (ty_eqb TInt) other). lia. }
+  split.
+  - rewrite !in_app_iff. auto.
+  - rewrite !app_length. pose proof (In_length_pos _ _ N') as P.
+    destruct KL as [KL|[KL|[KL|[KL|KL]]]].
+    + apply L' in KL. lia.
+    + destruct objs; simpl in *; lia.
+    + destruct lists; simpl in *; lia.
+    + destruct dicts; simpl in *; lia.
+    + pose proof (str_result_len replaces strs KL). lia.
+Qed.
+Lemma F2_length {A B} (R : A -> B -> Prop) l l' : Forall2 R l l' -> length l = length l'.
+Proof. induction 1; simpl; auto. Qed.
+Lemma finish_opt types t' : 2 <= length types -> In TNull types -> finish types = Some t' -> is_opt t' = true.
+Proof.
+  intros L N F. destruct types as [|x [|y r]]; [simpl in L; lia|simpl in L; lia|].
+  remember (x :: y :: r) as types eqn:ET.
+  assert (F' : Some (let types1 := if existsb is_unknown types && existsb (fun t => negb (is_unknown t) && negb (is_null t)) types
+               then remove_first is_unknown types else types in
+           if existsb is_null types1 then TOpt (union1 (filter (fun x => negb (is_null x)) types1))
+           else union1 (filter (fun x => negb (is_null x)) types1)) = Some t').
+  { rewrite <- F. subst types. reflexivity. }
+  clear F. inversion F' as [F]. clear F'. cbv zeta.
+  set (types1 := if existsb is_unknown types && existsb (fun t => negb (is_unknown t) && negb (is_null t)) types
+               then remove_first is_unknown types else types).
+  assert (In1 : In TNull types1).
+  { unfold types1. destruct (_ && _); auto. now apply remove_first_keep. }
+  assert (E : existsb is_null types1 = true) by (apply existsb_exists; exists TNull; auto).
+  rewrite E. reflexivity.
+Qed.
+Lemma optimize_hopt registry replaces peq fuel t t' :
+  optimize registry replaces peq fuel t = Some t' -> hopt t = true -> is_opt t' = true.
+Proof.
+  intros E H. unfold hopt in H. apply orb_prop in H as [H|H]; [eapply optimize_is_opt; eauto|].
+  destruct t; try discriminate. destruct fuel; [discriminate|]. rewrite optimize_S in E.
+  destruct (olist (optimize registry replaces peq fuel) (regroup registry replaces peq ts)) as [types|] eqn:EL; [|discriminate].
+  apply olist_Forall2 in EL. destruct (regroup_K registry replaces peq ts H) as [RN RL].
+  apply (finish_opt types); auto.
+  - rewrite <- (F2_length _ _ _ EL). exact RL.
+  - clear -EL RN. induction EL as [|x x' r r' Hx F IH]; [contradiction|].
+    destruct RN as [->|RN]; [|right; auto].
+    left. destruct fuel; [discriminate|]. rewrite optimize_S in Hx. now inversion Hx.
+Qed.
+
+Section RegistryStage.
+  Variable accepts : pseudo -> str -> bool.
+  Variable mf : N -> option fields.
+  Variable registry : list pseudo.
+  Variable replaces : list (pseudo * pseudo).
+  Variable peq : N -> N -> bool.
+  Notation hts := (htg accepts mf false).
+  Notation obj_oks := (obj_okg accepts mf false).
+  Hypothesis Hpeq : forall i j, peq i j = true -> forall v, hts v (TPtr i) <-> hts v (TPtr j).
+  Hypothesis Hrep : forall a b, In (a, b) replaces -> forall s, accepts a s = true -> accepts b s = true.
+  Variable rank : pseudo -> nat.
+  Hypothesis Hrank : forallb (fun pq => pseudo_eqb (fst pq) (snd pq) || (rank (fst pq) <? rank (snd pq))) replaces = true.
+
+  (* optimisation of a field set that is valid "up to hidden Optional" gives a valid field set *)
+  Lemma optimize_fields_okh fuel fs fs' l :
+    okf fs = true -> obj_okh accepts mf false fs l ->
+    optimize_fields registry replaces peq fuel fs = Some fs' -> obj_oks fs' l.
+  Proof.
+    intros O [H1 H2] E. unfold optimize_fields in E.
+    destruct (optimize registry replaces peq fuel (TObj fs)) as [t'|] eqn:EO; [|discriminate].
+    destruct t'; try discriminate. inversion E; subst fs0. clear E.
+    destruct fuel; [discriminate|]. rewrite optimize_S in EO.
+    destruct (ofields (optimize registry replaces peq fuel) fs) as [fs2|] eqn:EF; [|discriminate].
+    inversion EO; subst fs2. clear EO. pose proof (ofields_lookup _ _ _ EF) as L.
+    split.
+    - eapply Forall_impl; [|exact H1]. intros [k w] [t [Lk Hw]]. simpl in *.
+      specialize (L k). rewrite Lk in L. destruct L as [t2 [L2 E2]].
+      exists t2. split; auto.
+      apply (optimize_sound_strict accepts mf registry replaces peq Hpeq Hrep rank Hrank fuel t t2); auto.
+      apply okt_okT. eapply okf_lookup; eauto.
+    - intros k t2 L2 NO. specialize (L k). destruct (lookup k fs) as [t|] eqn:Lk; [|congruence].
+      destruct L as [t3 [L3 E3]]. assert (t3 = t2) by congruence. subst t3.
+      apply (H2 k t); auto. destruct (hopt t) eqn:Ot; auto.
+      rewrite (optimize_hopt _ _ _ _ _ _ E3 Ot) in NO. discriminate.
+  Qed.
+
+  (* (d) merge followed by optimize: no no_opt condition on the sets *)
+  Theorem merge_optimize_sound sets fuel fs' :
+    Forall (fun fs => okf fs = true) sets ->
+    optimize_fields registry replaces peq fuel (merge_field_sets peq sets) = Some fs' ->
+    forall fs l, In fs sets -> obj_oks fs l -> obj_oks fs' l.
+  Proof.
+    intros O E fs l Hin Hl.
+    destruct (merge_member_sound_h accepts mf false peq Hpeq sets O) as [M1 M2].
+    eapply optimize_fields_okh; eauto.
+  Qed.
+End RegistryStage.
+
+(* (d) for the official semantics, when neither the merged sets nor the registered models mention Any *)
+Fixpoint nounk (t : ty) : bool :=
+  match t with
+  | TUnknown => false
+  | TOpt x | TList x | TDict x => nounk x
+  | TUnion ts => (fix all l := match l with [] => true | x :: r => nounk x && all r end) ts
+  | TObj fs => (fix all (l : fields) := match l with [] => true | (_, x) :: r => nounk x && all r end) fs
+  | _ => true
+  end.
+Lemma nounk_union ts : nounk (TUnion ts) = forallb nounk ts.
+Proof. simpl. induction ts as [|x r IH]; simpl; auto; try (now rewrite IH). Qed.
+Lemma nounk_obj fs : nounk (TObj fs) = forallb (fun kv => nounk (snd kv)) fs.
+Proof. simpl. induction fs as [|[k x] r IH]; simpl; auto; try (now rewrite IH). Qed.
+Lemma ht_nounk_strict accepts mf :
+  (forall i fs, mf i = Some fs -> nounk (TObj fs) = true) ->
+  forall v t, nounk t = true -> ht accepts mf v t -> htg accepts mf false v t.
+Proof.
+  intros Hmf.
+  assert (OBJ : forall l, Forall (fun kv => forall t, nounk t = true -> ht accepts mf (snd kv) t -> htg accepts mf false (snd kv) t) l ->
+            forall fs, nounk (TObj fs) = true -> ht accepts mf (JObj l) (TObj fs) -> htg accepts mf false (JObj l) (TObj fs)).
+  { intros l H fs NL Hv. inversion Hv; subst. apply GObj; auto.
+    rewrite nounk_obj in NL. rewrite forallb_forall in NL. rewrite Forall_forall in *. intros kv Hkv.
+    match goal with V : forall x, In x l -> exists t, _ |- _ => destruct (V kv Hkv) as [t [L Ht]] end.
+    exists t. split; auto. apply (H kv Hkv t); auto. apply (NL _ (lookup_In _ _ _ L)). }
+  induction v using json_ind2; induction t using ty_ind2; intros NL Hv; inversion Hv; subst;
+    try discriminate;
+    try (now constructor);
+    try (apply GOptS; apply IHt; assumption);
+    try (rewrite nounk_union in NL; rewrite forallb_forall in NL; rewrite Forall_forall in *; eapply GUnion; eauto; fail);
+    try (constructor; rewrite Forall_forall in *; intros x Hx; eapply H; [exact Hx|exact NL|eauto]; fail).
+  - apply OBJ; auto.
+  - eapply GPtr; eauto.
+Qed.
+
+(* without the strict reading (or nounk) the registry-stage statement is false for the same reason as
+   optimize_any_refuted: Any is dropped beside a concrete member *)
+Example merge_optimize_any_refuted :
+  let f : str := [102%N] in
+  let sets := [[(f, TList TUnknown)]; [(f, TList TInt)]] in
+  let l := [(f, JArr [JStr []])] in
+  optimize_fields [] [] N.eqb 6 (merge_field_sets N.eqb sets) = Some [(f, TList TInt)] /\
+  obj_ok (fun _ _ => false) (fun _ => None) [(f, TList TUnknown)] l /\
+  ~ obj_ok (fun _ _ => false) (fun _ => None) [(f, TList TInt)] l.
+Proof.
+  cbv zeta. split; [vm_compute; reflexivity|]. split.
+  - split.
+    + constructor; [|constructor]. exists (TList TUnknown). split; [reflexivity|].
+      constructor. constructor; constructor.
+    + intros k t L _. simpl in L. simpl. destruct (str_eqb k [102%N]) eqn:E; [|discriminate].
+      apply str_eqb_true in E. auto.
+  - intros [H _]. inversion H as [|? ? [t [L Ht]] _]; subst. simpl in L. inversion L; subst.
+    inversion Ht; subst.
+    match goal with HF : Forall _ [JStr []] |- _ => inversion HF as [|? ? H1 _]; subst; inversion H1 end.
+Qed.
+
+Section RegistryStageOfficial.
+  Variable accepts : pseudo -> str -> bool.
+  Variable mf : N -> option fields.
+  Variable registry : list pseudo.
+  Variable replaces : list (pseudo * pseudo).
+  Variable peq : N -> N -> bool.
+  Hypothesis Hpeq : forall i j, peq i j = true -> forall v, ht accepts mf v (TPtr i) <-> ht accepts mf v (TPtr j).
+  Hypothesis Hrep : forall a b, In (a, b) replaces -> forall s, accepts a s = true -> accepts b s = true.
+  Variable rank : pseudo -> nat.
+  Hypothesis Hrank : forallb (fun pq => pseudo_eqb (fst pq) (snd pq) || (rank (fst pq) <? rank (snd pq))) replaces = true.
+  Hypothesis Hmf : forall i fs, mf i = Some fs -> nounk (TObj fs) = true.
+
+  Theorem merge_optimize_sound_ht sets fuel fs' :
+    Forall (fun fs => okf fs = true) sets ->
+    Forall (fun fs => nounk (TObj fs) = true) sets ->
+    optimize_fields registry replaces peq fuel (merge_field_sets peq sets) = Some fs' ->
+    forall fs l, In fs sets -> obj_ok accepts mf fs l -> obj_ok accepts mf fs' l.
+  Proof.
+    intros O NU E fs l Hin [H1 H2].
+    assert (Hpeq' : forall i j, peq i j = true ->
+              forall v, htg accepts mf false v (TPtr i) <-> htg accepts mf false v (TPtr j)).
+    { intros i j Eij v. split; intros X; apply (ht_nounk_strict accepts mf Hmf); auto;
+        apply (Hpeq i j Eij v); eapply htg_ht; eauto. }
+    assert (S : obj_okg accepts mf false fs l).
+    { split; auto. rewrite Forall_forall in NU. specialize (NU fs Hin). rewrite nounk_obj, forallb_forall in NU.
+      eapply Forall_impl; [|exact H1]. intros kv [t [L Ht]]. exists t. split; auto.
+      apply (ht_nounk_strict accepts mf Hmf); auto. apply (NU _ (lookup_In _ _ _ L)). }
+    destruct (merge_optimize_sound accepts mf registry replaces peq Hpeq' Hrep rank Hrank sets fuel fs' O E fs l Hin S) as [R1 R2].
+    split; auto. eapply Forall_impl; [|exact R1]. intros kv [t [L Ht]]. exists t. split; auto.
+    eapply htg_ht; eauto.
+  Qed.
+End RegistryStageOfficial.
+
+(* ------------------------------------------------------------------ *)
+(* (7) detection                                                       *)
+(* ------------------------------------------------------------------ *)
+Lemma wf_json_arr l : wf_json (JArr l) = true -> Forall (fun x => wf_json x = true) l.
+Proof.
+  simpl. induction l as [|x r IH]; intros H; constructor.
+  - apply andb_prop in H. tauto.
+  - apply IH. apply andb_prop in H. tauto.
+Qed.
+Lemma wf_json_obj l : wf_json (JObj l) = true ->
+  NoDup (map fst l) /\ Forall (fun kv => wf_json (snd kv) = true) l.
+Proof.
+  simpl. intros H. apply andb_prop in H as [H1 H2]. split.
+  - clear H2. induction l as [|[k x] r IH]; simpl; constructor.
+    + apply andb_prop in H1 as [H1 _]. apply negb_true_iff in H1. intros Hin.
+      apply in_map_iff in Hin as [[k' x'] [Ek Hin]]. simpl in Ek. subst k'.
+      assert (X : existsb (fun kv : str * json => str_eqb k (fst kv)) r = true).
+      { apply existsb_exists. exists (k, x'). split; auto. simpl. apply str_eqb_refl. }
+      congruence.
+    + apply IH. apply andb_prop in H1. tauto.
+  - clear H1. induction l as [|[k x] r IH]; constructor.
+    + simpl. apply andb_prop in H2. tauto.
+    + apply IH. apply andb_prop in H2. tauto.
+Qed.
+
+Section DetectSound.
+  Variable accepts : pseudo -> str -> bool.
+  Variable mf : N -> option fields.
+  Variable uk : bool.
+  Variable registry : list pseudo.
+  Variable n_regex : nat.
+  Variable key_matches : nat -> str -> bool.
+  Variable dict_fields : list str.
+  Notation ht := (htg accepts mf uk).
+  Notation obj_ok := (obj_okg accepts mf uk).
+  Notation detect := (detect registry accepts n_regex key_matches dict_fields).
+  Notation convert := (convert registry accepts n_regex key_matches dict_fields).
+  Notation elem_type := (elem_type).
+
+  Lemma elem_type_sound types v : Exists (ht v) types -> ht v (Detect.elem_type types).
+  Proof.
+    intros H. destruct types as [|t [|t2 r]].
+    - inversion H.
+    - inversion H; subst; auto. inversion H1.
+    - apply (union1_sound accepts mf uk v _ H).
+  Qed.
+  Lemma elem_type_okt types : okts types -> okt (Detect.elem_type types) = true.
+  Proof.
+    intros H. destruct types as [|t [|t2 r]].
+    - reflexivity.
+    - now inversion H.
+    - apply (union1_okt _ H).
+  Qed.
+  Lemma detect_not_opt cd v : is_opt (detect cd v) = false.
+  Proof.
+    destruct v; simpl; auto.
+    - unfold detect_str. destruct (find _ _); auto. unfold mk_lit. destruct (lit_overflow _); auto.
+    - destruct l; auto. destruct (_ && _); auto.
+  Qed.
+  Lemma detect_arr l : detect true (JArr l) = TList (Detect.elem_type (map (detect true) l)).
+  Proof. simpl. f_equal. Qed.
+  Lemma detect_obj cd kvs : detect cd (JObj kvs) =
+    match kvs with
+    | [] => TDict TUnknown
+    | _ => if cd && negb (all_keys_match n_regex key_matches (map fst kvs)) then TObj (convert kvs)
+           else TDict (Detect.elem_type (map (fun kv => detect true (snd kv)) kvs))
+    end.
+  Proof.
+    destruct kvs as [|kv0 r]; [reflexivity|]. remember (kv0 :: r) as kvs eqn:E.
+    assert (E1 : (fix go (l : list (str * json)) : fields :=
+                    match l with
+                    | [] => []
+                    | (k, x) :: r => (k, detect (negb (existsb (str_eqb k) dict_fields)) x) :: go r
+                    end) kvs = convert kvs).
+    { clear E. unfold Detect.convert. induction kvs as [|[k x] r' IH]; simpl; auto. now rewrite IH. }
+    assert (E2 : (fix go (l : list (str * json)) := match l with [] => [] | (_, x) :: r => detect true x :: go r end) kvs
+                 = map (fun kv => detect true (snd kv)) kvs).
+    { clear E E1. induction kvs as [|[k x] r' IH]; simpl; auto. now rewrite IH. }
+    rewrite <- E1, <- E2. subst kvs. reflexivity.
+  Qed.
+
+  Lemma convert_gen kvs : NoDup (map fst kvs) ->
+    Forall (fun kv => forall cd, ht (snd kv) (detect cd (snd kv)) /\ okt (detect cd (snd kv)) = true) kvs ->
+    obj_ok (convert kvs) kvs /\ okf (convert kvs) = true /\ no_opt (convert kvs) = true.
+  Proof.
+    intros ND F. unfold Detect.convert.
+    set (g := fun kv : str * json => (fst kv, detect (negb (existsb (str_eqb (fst kv)) dict_fields)) (snd kv))).
+    assert (K : map fst (map g kvs) = map fst kvs) by (rewrite map_map; apply map_ext; reflexivity).
+    rewrite Forall_forall in F.
+    split; [split|split].
+    - apply Forall_forall. intros [k x] Hin. simpl.
+      exists (detect (negb (existsb (str_eqb k) dict_fields)) x). split.
+      + apply In_lookup_nodup; [now rewrite K|]. apply in_map_iff. exists (k, x). auto.
+      + apply (F _ Hin).
+    - intros k t L _. rewrite <- K. eapply lookup_Some_in; eauto.
+    - apply okf_iff. rewrite K. split; auto. apply Forall_map. apply Forall_forall.
+      intros kv Hin. simpl. apply (F _ Hin).
+    - unfold no_opt. rewrite forallb_forall. intros kt Hin. apply in_map_iff in Hin as [kv [<- Hin]].
+      simpl. now rewrite detect_not_opt.
+  Qed.
+
+  Lemma detect_gen : forall v cd, wf_json v = true -> ht v (detect cd v) /\ okt (detect cd v) = true.
+  Proof.
+    induction v using json_ind2; intros cd W; try (split; [constructor|reflexivity]).
+    - (* JStr *) simpl. unfold detect_str. destruct (find (fun p => accepts p s) registry) as [p|] eqn:Ef.
+      + apply find_some in Ef as [_ Ef]. split; [now constructor|reflexivity].
+      + unfold mk_lit. destruct (lit_overflow [s]); split; try reflexivity.
+        * apply GLitO.
+        * apply GLit. simpl. auto.
+    - (* JArr *) apply wf_json_arr in W.
+      assert (cd_irrel : detect cd (JArr l) = detect true (JArr l)) by reflexivity.
+      rewrite cd_irrel, detect_arr. rewrite Forall_forall in H, W. split.
+      + constructor. apply Forall_forall. intros x Hx. apply elem_type_sound.
+        apply Exists_exists. exists (detect true x). split; [now apply in_map|]. apply H; auto.
+      + simpl. apply elem_type_okt. apply Forall_map. apply Forall_forall. intros x Hx. apply H; auto.
+    - (* JObj *) apply wf_json_obj in W as [ND W]. rewrite detect_obj.
+      rewrite Forall_forall in H, W.
+      destruct l as [|kv0 r] eqn:El; [split; [constructor; constructor|reflexivity]|]. rewrite <- El in *.
+      destruct (cd && negb (all_keys_match n_regex key_matches (map fst l))).
+      + destruct (convert_gen l ND) as [[A B] [C D]].
+        { apply Forall_forall. intros kv Hin cd'. apply H; auto. }
+        split; [now apply GObj|]. rewrite okt_obj, C, D. reflexivity.
+      + split.
+        * constructor. apply Forall_forall. intros kv Hx. apply elem_type_sound.
+          apply Exists_exists. exists (detect true (snd kv)). split.
+          -- apply in_map_iff. exists kv. auto.
+          -- apply H; auto.
+        * simpl. apply elem_type_okt. apply Forall_map. apply Forall_forall. intros kv Hx. apply H; auto.
+  Qed.
+
+  (* (7) for every uk (in particular for the strict reading uk = false) *)
+  Theorem detect_sound_g cd v : wf_json v = true -> ht v (detect cd v).
+  Proof. intros W. now apply detect_gen. Qed.
+  Theorem convert_sound_g kvs : wf_json (JObj kvs) = true ->
+    obj_ok (convert kvs) kvs /\ okf (convert kvs) = true /\ no_opt (convert kvs) = true.
+  Proof.
+    intros W. apply wf_json_obj in W as [ND W]. apply convert_gen; auto.
+    eapply Forall_impl; [|exact W]. intros kv Wk cd. now apply detect_gen.
+  Qed.
+End DetectSound.
+
+(* (7) for the official semantics *)
+Theorem detect_sound accepts mf registry n_regex key_matches dict_fields cd v :
+  wf_json v = true -> ht accepts mf v (detect registry accepts n_regex key_matches dict_fields cd v).
+Proof. intros W. apply htg_true_iff. now apply detect_sound_g. Qed.
+Theorem convert_sound accepts mf registry n_regex key_matches dict_fields kvs :
+  wf_json (JObj kvs) = true ->
+  obj_ok accepts mf (convert registry accepts n_regex key_matches dict_fields kvs) kvs.
+Proof. intros W. apply obj_okg_true_iff. now apply convert_sound_g. Qed.
+
+(* ------------------------------------------------------------------ *)
+(* by-product (not used below any more): optimised terms carry no overflowed literal *)
+(* ------------------------------------------------------------------ *)
+Fixpoint nolo (t : ty) : bool :=
+  match t with
+  | TLit o _ => negb o
+  | TOpt x | TList x | TDict x => nolo x
+  | TUnion ts => (fix all l := match l with [] => true | x :: r => nolo x && all r end) ts
+  | TObj fs => (fix all (l : fields) := match l with [] => true | (_, x) :: r => nolo x && all r end) fs
+  | _ => true
+  end.
+Notation nolos := (Forall (fun x => nolo x = true)).
+Lemma nolo_union ts : nolo (TUnion ts) = forallb nolo ts.
+Proof. simpl. induction ts as [|x r IH]; simpl; auto; try (now rewrite IH). Qed.
+Lemma nolo_obj fs : nolo (TObj fs) = forallb (fun kv => nolo (snd kv)) fs.
+Proof. simpl. induction fs as [|[k x] r IH]; simpl; auto; try (now rewrite IH). Qed.
+Lemma nolo_union_Forall ts : nolo (TUnion ts) = true <-> nolos ts.
+Proof. rewrite nolo_union, forallb_forall, Forall_forall. tauto. Qed.
+Lemma flat_nolo : forall t, nolo t = true -> nolos (flat t).
+Proof.
+  induction t using ty_ind2; intros O; try (constructor; [exact O|constructor]).
+  apply nolo_union_Forall in O. simpl.
+  induction H as [|x r Hx Hr IH]; [constructor|].
+  inversion O; subst. apply Forall_app. split; auto.
+Qed.
+Lemma add_unique_nolo u t : nolos u -> nolo t = true -> nolos (add_unique u t).
+Proof.
+  unfold add_unique. intros Hu Ht. destruct (existsb (ty_eqb t) u); auto.
+  apply Forall_app. split; auto.
+Qed.
+Lemma union_step_nolo st t : nolos (fst (fst st)) -> nolo t = true -> nolos (fst (fst (union_step st t))).
+Proof.
+  destruct st as [[u ul] ls]. simpl. intros Hu Ht.
+  destruct t; simpl; try (apply add_unique_nolo; auto).
+  destruct (negb ul); simpl; auto. destruct overflow; simpl; auto.
+Qed.
+Lemma union_fold_nolo : forall l st, nolos (fst (fst st)) -> nolos l -> nolos (fst (fst (fold_left union_step l st))).
+Proof.
+  induction l as [|t r IH]; simpl; intros st Hu Hl; auto.
+  inversion Hl; subst. apply IH; auto. apply union_step_nolo; auto.
+Qed.
+Lemma mk_union_nolo ts : nolos ts -> nolos (mk_union ts).
+Proof.
+  intros H. unfold mk_union.
+  assert (F : nolos (flatten_union ts)) by (apply flat_nolo, nolo_union_Forall, H).
+  pose proof (union_fold_nolo (flatten_union ts) ([], true, []) (Forall_nil _) F) as U.
+  destruct (fold_left union_step (flatten_union ts) ([], true, [])) as [[u ul] ls]. simpl in U.
+  assert (S : forall u', nolos u' -> nolos (add_unique u' TStr)) by (intros; apply add_unique_nolo; auto).
+  destruct ls as [|l0 lr].
+  - destruct ul; auto.
+  - destruct ul; auto. destruct (lit_overflow (l0 :: lr)); auto.
+    apply Forall_app. split; auto.
+Qed.
+Lemma union1_nolo ts : nolos ts -> nolo (union1 ts) = true.
+Proof.
+  intros H. apply mk_union_nolo in H. unfold union1.
+  destruct (mk_union ts) as [|x [|y r]] eqn:E.
+  - reflexivity.
+  - now inversion H.
+  - now apply nolo_union_Forall.
+Qed.
+
+Lemma finish_nolo types t' : nolos types -> finish types = Some t' -> nolo t' = true.
+Proof.
+  intros N F. destruct types as [|x [|y r]]; [discriminate| |].
+  - inversion F; subst. now inversion N.
+  - remember (x :: y :: r) as types eqn:ET.
+    assert (F' : Some (let types1 := if existsb is_unknown types && existsb (fun t => negb (is_unknown t) && negb (is_null t)) types
+                 then remove_first is_unknown types else types in
+             if existsb is_null types1 then TOpt (union1 (filter (fun x => negb (is_null x)) types1))
+             else union1 (filter (fun x => negb (is_null x)) types1)) = Some t').
+    { rewrite <- F. subst types. reflexivity. }
+    clear F. inversion F' as [F]. clear F'. cbv zeta.
+    set (types1 := if existsb is_unknown types && existsb (fun t => negb (is_unknown t) && negb (is_null t)) types
+                 then remove_first is_unknown types else types).
+    assert (N1 : nolos (filter (fun x => negb (is_null x)) types1)).
+    { rewrite Forall_forall in *. intros z Hz. apply filter_In in Hz as [Hz _]. apply N.
+      unfold types1 in Hz. destruct (_ && _); auto. eapply remove_first_sub; eauto. }
+    apply union1_nolo in N1. destruct (existsb is_null types1); simpl; exact N1.
+Qed.
+Lemma ofields_Forall o (P : ty -> Prop) : forall l l', ofields o l = Some l' ->
+  (forall x x', o x = Some x' -> P x') -> Forall (fun kv => P (snd kv)) l'.
+Proof.
+  induction l as [|[k x] r IH]; simpl; intros l' H HP.
+  - inversion H. constructor.
+  - destruct (o x) as [x'|] eqn:E; [|discriminate]. destruct (ofields o r) as [r'|] eqn:E'; [|discriminate].
+    inversion H; subst. constructor; eauto.
+Qed.
+Lemma optimize_nolo registry replaces peq : forall fuel t t',
+  optimize registry replaces peq fuel t = Some t' -> nolo t' = true.
+Proof.
+  induction fuel as [|fuel IH]; intros t t' E; [discriminate|].
+  rewrite optimize_S in E. destruct t; try (inversion E; subst; reflexivity).
+  - inversion E; subst. destruct overflow; simpl; auto. destruct ls; reflexivity.
+  - destruct (optimize registry replaces peq fuel t) as [y|] eqn:Ey; [|discriminate].
+    apply IH in Ey. destruct y; inversion E; subst; exact Ey.
+  - destruct (optimize registry replaces peq fuel t) as [y|] eqn:Ey; [|discriminate].
+    apply IH in Ey. inversion E; subst; exact Ey.
+  - destruct (optimize registry replaces peq fuel t) as [y|] eqn:Ey; [|discriminate].
+    apply IH in Ey. inversion E; subst; exact Ey.
+  - destruct (olist (optimize registry replaces peq fuel) (regroup registry replaces peq ts)) as [types|] eqn:EL; [|discriminate].
+    apply olist_Forall2 in EL. apply (finish_nolo types); auto.
+    clear E. induction EL; constructor; eauto.
+  - destruct (ofields (optimize registry replaces peq fuel) fs) as [fs'|] eqn:EF; [|discriminate].
+    inversion E; subst. rewrite nolo_obj. apply forallb_forall. apply Forall_forall.
+    apply (ofields_Forall _ (fun x => nolo x = true) _ _ EF). intros x x' Ex. eapply IH; eauto.
+Qed.
+
+(* (6) for the official semantics, on terms without Any and without pointers (decidable side condition
+   plain t): there the strict and the official reading agree on the input side *)
+Fixpoint plain (t : ty) : bool :=
+  match t with
+  | TUnknown | TPtr _ => false
+  | TOpt x | TList x | TDict x => plain x
+  | TUnion ts => (fix all l := match l with [] => true | x :: r => plain x && all r end) ts
+  | TObj fs => (fix all (l : fields) := match l with [] => true | (_, x) :: r => plain x && all r end) fs
+  | _ => true
+  end.
+Lemma plain_union ts : plain (TUnion ts) = forallb plain ts.
+Proof. simpl. induction ts as [|x r IH]; simpl; auto; try (now rewrite IH). Qed.
+Lemma plain_obj fs : plain (TObj fs) = forallb (fun kv => plain (snd kv)) fs.
+Proof. simpl. induction fs as [|[k x] r IH]; simpl; auto; try (now rewrite IH). Qed.
+Lemma ht_plain_strict accepts mf :
+  forall v t, plain t = true -> ht accepts mf v t -> htg accepts (fun _ => None) false v t.
+Proof.
+  induction v using json_ind2; induction t using ty_ind2; intros NL Hv; inversion Hv; subst;
+    try discriminate;
+    try (now constructor);
+    try (apply GOptS; apply IHt; assumption);
+    try (rewrite plain_union in NL; rewrite forallb_forall in NL; rewrite Forall_forall in *; eapply GUnion; eauto; fail);
+    try (constructor; rewrite Forall_forall in *; intros x Hx; eapply H; [exact Hx|exact NL|eauto]; fail).
+  apply GObj; auto.
+  rewrite plain_obj in NL. rewrite forallb_forall in NL. rewrite Forall_forall in *. intros kv Hkv.
+  match goal with V : forall x, In x l -> exists t, _ |- _ => destruct (V kv Hkv) as [t [L Ht]] end.
+  exists t. split; auto. apply (H kv Hkv t); auto. apply (NL _ (lookup_In _ _ _ L)).
+Qed.
+
+Section OptimizeOfficial.
+  Variable accepts : pseudo -> str -> bool.
+  Variable mf : N -> option fields.
+  Variable registry : list pseudo.
+  Variable replaces : list (pseudo * pseudo).
+  Variable peq : N -> N -> bool.
+  Hypothesis Hrep : forall a b, In (a, b) replaces -> forall s, accepts a s = true -> accepts b s = true.
+  Variable rank : pseudo -> nat.
+  Hypothesis Hrank : forallb (fun pq => pseudo_eqb (fst pq) (snd pq) || (rank (fst pq) <? rank (snd pq))) replaces = true.
+
+  Theorem optimize_sound fuel t t' :
+    okT t = true -> plain t = true -> optimize registry replaces peq fuel t = Some t' ->
+    forall v, ht accepts mf v t -> ht accepts mf v t'.
+  Proof.
+    intros O P E v Hv. apply ht_none_any.
+    apply (htg_ht accepts (fun _ => None) false).
+    apply (optimize_sound_strict accepts (fun _ => None) registry replaces peq) with (rank := rank) (fuel := fuel) (t := t); auto.
+    - intros i j _ w. split; intros X; inversion X; discriminate.
+    - eapply ht_plain_strict; eauto.
+  Qed.
+End OptimizeOfficial.
+
+(* ------------------------------------------------------------------ *)
+(* (8) generate                                                        *)
+(* ------------------------------------------------------------------ *)
+Section GenerateSound.
+  Variable accepts : pseudo -> str -> bool.
+  Variable mf : N -> option fields.
+  Variable registry : list pseudo.
+  Variable replaces : list (pseudo * pseudo).
+  Variable n_regex : nat.
+  Variable key_matches : nat -> str -> bool.
+  Variable dict_fields : list str.
+  Hypothesis Hrep : forall a b, In (a, b) replaces -> forall s, accepts a s = true -> accepts b s = true.
+  Variable rank : pseudo -> nat.
+  Hypothesis Hrank : forallb (fun pq => pseudo_eqb (fst pq) (snd pq) || (rank (fst pq) <? rank (snd pq))) replaces = true.
+  (* the model table mf is arbitrary: the chain is run with the empty table (no pointer is ever dereferenced) *)
+  Let mf0 : N -> option fields := fun _ => None.
+
+  Theorem generate_sound fuel samples fs :
+    Forall (fun s => wf_json (JObj s) = true) samples ->
+    generate registry replaces accepts n_regex key_matches dict_fields fuel samples = Some fs ->
+    Forall (fun s => ht accepts mf (JObj s) (TObj fs)) samples.
+  Proof.
+    intros W G. unfold generate, optimize_fields in G.
+    set (conv := convert registry accepts n_regex key_matches dict_fields) in *.
+    set (merged := merge_field_sets N.eqb (map conv samples)) in *.
+    destruct (optimize registry replaces N.eqb fuel (TObj merged)) as [t'|] eqn:EO; [|discriminate].
+    destruct t'; try discriminate. inversion G; subst fs0. clear G.
+    assert (Hpeq : forall i j, N.eqb i j = true ->
+              forall v, htg accepts mf0 false v (TPtr i) <-> htg accepts mf0 false v (TPtr j)).
+    { intros i j E v. apply N.eqb_eq in E. subst. reflexivity. }
+    assert (CS : forall s, In s samples ->
+              obj_okg accepts mf0 false (conv s) s /\ okf (conv s) = true /\ no_opt (conv s) = true).
+    { intros s Hs. rewrite Forall_forall in W. apply convert_sound_g. apply W, Hs. }
+    assert (O1 : Forall (fun fs => okf fs = true) (map conv samples)).
+    { apply Forall_map. apply Forall_forall. intros s Hs. apply (CS s Hs). }
+    assert (O2 : Forall (fun fs => no_opt fs = true) (tl (map conv samples))).
+    { assert (A : Forall (fun fs => no_opt fs = true) (map conv samples)).
+      { apply Forall_map. apply Forall_forall. intros s Hs. apply (CS s Hs). }
+      destruct (map conv samples); simpl; [constructor|]. now inversion A. }
+    destruct (merge_member_sound accepts mf0 false N.eqb Hpeq (map conv samples) O1 O2) as [M1 M2].
+    fold merged in M1, M2.
+    apply Forall_forall. intros s Hs.
+    apply ht_none_any. fold mf0.
+    apply (htg_ht accepts mf0 false).
+    apply (optimize_sound_strict accepts mf0 registry replaces N.eqb Hpeq Hrep rank Hrank fuel (TObj merged)); auto.
+    destruct (M1 (conv s) s) as [A B]; [apply in_map, Hs|apply (CS s Hs)|]. now apply GObj.
+  Qed.
+End GenerateSound.
+
+(* ------------------------------------------------------------------ *)
+(* corollaries for the official semantics ht (uk = true, no overflowed-literal rule) *)
+(* ------------------------------------------------------------------ *)
+Section Official.
+  Variable accepts : pseudo -> str -> bool.
+  Variable mf : N -> option fields.
+  Notation ht := (ht accepts mf).
+  Notation obj_ok := (obj_ok accepts mf).
+
+  Lemma Exists_htg_iff v ts : Exists (htg accepts mf true v) ts <-> Exists (ht v) ts.
+  Proof. rewrite !Exists_exists. split; intros [t [A B]]; exists t; split; auto; now apply htg_true_iff. Qed.
+
+  Theorem mk_union_sound_ht v ts : Exists (ht v) ts -> Exists (ht v) (mk_union ts).
+  Proof. intros H. apply Exists_htg_iff, mk_union_sound, Exists_htg_iff, H. Qed.
+  Theorem union1_sound_ht v ts : Exists (ht v) ts -> ht v (union1 ts).
+  Proof. intros H. apply htg_true_iff, union1_sound, Exists_htg_iff, H. Qed.
+  Theorem dunion_sound_ht v ts : Exists (ht v) ts -> ht v (dunion ts).
+  Proof. intros H. apply htg_true_iff, dunion_sound, Exists_htg_iff, H. Qed.
+
+  Theorem py_eq_sound_ht peq :
+    (forall i j, peq i j = true -> forall v, ht v (TPtr i) <-> ht v (TPtr j)) ->
+    forall a b, okt0 a = true -> okt0 b = true -> py_eq peq a b = true -> forall v, ht v a <-> ht v b.
+  Proof.
+    intros Hp a b Oa Ob E v. rewrite <- !htg_true_iff.
+    apply (py_eq_sound accepts mf true peq); auto.
+    intros i j Eij w. rewrite !htg_true_iff. now apply Hp.
+  Qed.
+
+  Theorem merge_field_sets_sound_ht peq sets objs :
+    (forall i j, peq i j = true -> forall v, ht v (TPtr i) <-> ht v (TPtr j)) ->
+    Forall2 (fun fs l => obj_ok fs l) sets objs ->
+    Forall (fun fs => okf fs = true) sets ->
+    Forall (fun fs => no_opt fs = true) (tl sets) ->
+    Forall (obj_ok (merge_field_sets peq sets)) objs.
+  Proof.
+    intros Hp F O NO.
+    assert (Hp' : forall i j, peq i j = true -> forall v, htg accepts mf true v (TPtr i) <-> htg accepts mf true v (TPtr j)).
+    { intros i j Eij w. rewrite !htg_true_iff. now apply Hp. }
+    assert (F' : Forall2 (fun fs l => obj_okg accepts mf true fs l) sets objs).
+    { clear -F. induction F; constructor; auto. now apply obj_okg_true_iff. }
+    destruct (merge_field_sets_sound accepts mf true peq Hp' sets objs F' O NO) as [R _].
+    eapply Forall_impl; [|exact R]. intros l Hl. now apply obj_okg_true_iff.
+  Qed.
+
+  Theorem str_result_sound_ht replaces rank strs t v :
+    (forall a b, In (a, b) replaces -> forall s, accepts a s = true -> accepts b s = true) ->
+    forallb (fun pq => pseudo_eqb (fst pq) (snd pq) || (rank (fst pq) <? rank (snd pq))) replaces = true ->
+    In t strs -> (t = TStr \/ exists p, t = TPseudo p) -> ht v t -> Exists (ht v) (str_result replaces strs).
+  Proof.
+    intros Hrep Hrank Hin Ht Hv. apply Exists_htg_iff.
+    eapply (str_result_sound accepts mf true replaces Hrep rank Hrank); eauto. now apply htg_true_iff.
+  Qed.
+End Official.
+
+Print Assumptions ty_eqb_eq.
+Print Assumptions mk_union_sound.
+Print Assumptions union1_sound.
+Print Assumptions dunion_sound.
+Print Assumptions py_eq_sound.
+Print Assumptions merge_field_sets_sound.
+Print Assumptions merge_member_sound.
+Print Assumptions resolve_sound.
+Print Assumptions str_result_sound.
+Print Assumptions optimize_sound_strict.
+Print Assumptions optimize_sound.
+Print Assumptions detect_sound_g.
+Print Assumptions convert_sound_g.
+Print Assumptions detect_sound.
+Print Assumptions convert_sound.
+Print Assumptions generate_sound.
+Print Assumptions merge_member_sound_h.
+Print Assumptions merge_optimize_sound.
+Print Assumptions merge_optimize_sound_ht.
+Print Assumptions mk_union_sound_ht.
+Print Assumptions py_eq_sound_ht.
+Print Assumptions merge_field_sets_sound_ht.
+Print Assumptions str_result_sound_ht.
+
+(* NOT PROVED: (because refuted as stated; each is replaced above by the weakest variant the proofs allowed)
+   - optimize_sound for the official ht without side condition on Any: refuted by optimize_any_refuted(_raw).
+     Proved instead: optimize_sound_strict (Any accepts nothing) and optimize_sound (official ht, plain t).
+   - resolve_sound / str_result_sound from "replaces is sound" alone: refuted by resolve_cyclic_refuted.
+     Proved with the decidable certificate Hrank (every proper replaces edge increases rank).
+   - merge_field_sets_sound without no_opt on the later sets: refuted by merge_opt_refuted; the registry-stage
+     form (merge followed by optimize) holds without no_opt: merge_optimize_sound.
+   - merge-then-optimize for the official ht when Any occurs: refuted by merge_optimize_any_refuted.
+     Proved for the strict reading, and for the official ht on Any-free sets and models.
+   Nothing else is left open: generate_sound holds for the official ht with the hypotheses of the task plus Hrank. *)
